@@ -16,7 +16,7 @@ Notation replica := (Txn.replica facts).
 Notation R := (TxnGraph.R facts).
 Notation WInv := (TxnInv.WInv facts fempty eval braid gid).
 Notation SInv := (TxnInv.SInv facts fempty eval braid libc gid).
-Notation TInv := (TxnInv.TInv facts fempty eval braid gid).
+Notation TInv := (TxnInv.TInv facts eval braid).
 Notation RInv := (TxnInv.RInv facts fempty eval braid libc gid).
 Notation rclash := (TxnInv.rclash facts).
 Notation step := (Txn.step facts fempty eval has_policy merge_id facts_effs braid libc gid).
@@ -26,18 +26,102 @@ Notation add_commands := (Txn.add_commands facts fempty eval has_policy braid li
 Notation commit := (Txn.commit facts braid libc).
 Notation init := (Txn.init facts fempty eval has_policy libc gid).
 Notation commit_heads := (Txn.commit_heads facts libc).
+Notation sext := (TxnInv.sext facts).
+Notation collapse_step := (Txn.collapse_step facts merge_id braid).
+Notation collapse_go := (Txn.collapse_go facts merge_id braid).
+Notation collapse_heads := (Txn.collapse_heads facts merge_id braid).
+Notation publish := (Txn.publish facts eval).
+Notation do_action := (Txn.do_action facts eval merge_id facts_effs braid libc).
+Notation merge_persp := (Txn.merge_persp facts).
+Notation mk_merge := (Txn.mk_merge merge_id).
+Notation add_single := (Txn.add_single facts eval).
+Notation add_merge := (Txn.add_merge facts braid).
+Notation pids := (TxnInv.pids facts).
+Notation held := (TxnInv.held facts).
+Notation ext := (TxnInv.ext facts).
+Notation hello_head := (Txn.hello_head facts merge_id).
+Notation synth_go := (Txn.synth_go merge_id).
+Notation synth_step := (Txn.synth_step merge_id).
+Notation PInv := (TxnInv.PInv facts eval braid).
+Notation stored := (TxnInv.stored facts).
 
 Implicit Types (W : list wcmd) (w : wcmd) (s : store) (t : txn) (r : replica).
 
 (* local re-exports of the invariant lemmas at this section's parameters *)
 Lemma WInv_wf' W : WInv W -> wf_graph (sg W).
 Proof. intros; eapply WInv_wf; eauto. Qed.
+Lemma WInv_NoDup' W : WInv W -> NoDup (map wid W).
+Proof. intros; eapply WInv_NoDup; eauto. Qed.
 Lemma WInv_entry' W : WInv W -> forall w, In w W -> cpar (wc w) = PNone \/ entry_ok facts eval braid W w.
 Proof. intros; eapply WInv_entry; eauto. Qed.
 Lemma RInv_run' ops : rclash (run r0 ops) = false -> RInv (run r0 ops).
 Proof. intros; eapply RInv_run; eauto. Qed.
 Lemma step_ok' r o : RInv r -> rclash (fst (fst (step r o))) = false -> RInv (fst (fst (step r o))).
 Proof. intros; eapply step_ok; eauto. Qed.
+Lemma write_perspective_ok' s t s1 t1 e :
+  SInv s -> TInv s t -> write_perspective s t = (s1, t1, e) -> sclash s1 = false ->
+  SInv s1 /\ sext s s1 /\ TInv s1 t1 /\ tpersp t1 = None
+  /\ tstamp t1 = tstamp t /\ tseen t1 = tseen t /\ tadded t1 = tadded t
+  /\ (tstamp t = Some (sstamp s) ->
+      forall x, R (sW s1) (ttips t1) x <-> (R (sW s) (ttips t) x \/ In x (pids t))).
+Proof. intros; eapply write_perspective_ok; eauto. Qed.
+Lemma collapse_go_ok' n s q s1 (rr : N + cerr) :
+  SInv s -> (forall x, In x q -> In x (map wid (sW s))) ->
+  collapse_go n s q = (s1, rr) -> sclash s1 = false ->
+  SInv s1 /\ sext s s1 /\ cmono facts s s1 /\ match rr with inl h => In h (map wid (sW s1)) | inr _ => True end.
+Proof. intros; eapply collapse_go_ok; eauto. Qed.
+Lemma collapse_step_ok' s a b s' m :
+  SInv s -> In a (map wid (sW s)) -> In b (map wid (sW s)) ->
+  collapse_step s a b = inl (s', m) -> sclash s' = false ->
+  SInv s' /\ sext s s' /\ In m (map wid (sW s')) /\ cmono facts s s'.
+Proof. intros; eapply collapse_step_ok with (a := a) (b := b); eauto. Qed.
+Lemma write_ok' s (p : persp facts) s' hid :
+  WInv (sW s) -> PInv (sW s) p -> write s p = Some (s', hid) -> sclash s' = false -> sclash s = false ->
+  WInv (sW s') /\ sext s s' /\ (forall w, In w (pcmds p) -> stored (sW s') w)
+  /\ exists w rest, pcmds p = w :: rest /\ hid = wid w.
+Proof. intros; eapply write_ok; eauto. Qed.
+Lemma publish_PInv' W cs (p : persp facts) i fail log p' log' :
+  PInv W p -> publish p cs i fail log = inl (p', log') -> PInv W p' /\ pp p' = pp p.
+Proof. intros; eapply publish_PInv; eauto. Qed.
+Lemma merge_persp_PInv' W c (l rr : N) f effs (p : persp facts) :
+  In l (map wid W) -> In rr (map wid W) -> braid (reachset W [l; rr]) [l; rr] = BOk f effs ->
+  merge_persp W c l rr f = Some p -> PInv W p /\ exists w, pcmds p = [w] /\ wc w = c.
+Proof. intros; eapply merge_persp_PInv with (l := l) (r := rr); eauto. Qed.
+Lemma SInv_sext' s s' : SInv s -> sext s s' -> WInv (sW s') -> sclash s' = false -> SInv s'.
+Proof. intros; eapply SInv_sext; eauto. Qed.
+Lemma R_ext' W W' hs x :
+  WInv W' -> ext W W' -> (forall h, In h hs -> In h (map wid W)) -> (R W' hs x <-> R W hs x).
+Proof. intros; eapply R_ext; eauto. Qed.
+Lemma anc_ext' W W' x h :
+  WInv W' -> ext W W' -> In h (map wid W) -> (anc (sg W') x h <-> anc (sg W) x h).
+Proof. intros; eapply anc_ext; eauto. Qed.
+Lemma add_commands_ok' so t cs so' t' l x :
+  match so with Some s => SInv s /\ TInv s t | None => tnew_like facts t end ->
+  add_commands so t cs = (so', t', l, x) ->
+  match so' with Some s' => sclash s' = false | None => True end ->
+  match so' with
+  | None => so = None /\ t' = t
+  | Some s' =>
+    SInv s' /\ TInv s' t'
+    /\ match so with
+       | Some s => sext s s' /\ cmono facts s s'
+       | None => forall t2, tnew_like facts t2 -> TInv s' t2
+       end
+  end.
+Proof. intros; eapply add_commands_ok; eauto. Qed.
+Lemma add_single_ok' s t c parent s1 t1 l e :
+  SInv s -> TInv s t -> tstamp t <> None ->
+  ~ In (cid c) (pids t) -> (tstamp t = Some (sstamp s) -> ~ R (sW s) (ttips t) (cid c)) ->
+  add_single s t c parent = (s1, t1, l, e) -> sclash s1 = false ->
+  SInv s1 /\ sext s s1 /\ TInv s1 t1 /\ tstamp t1 = tstamp t /\ tseen t1 = tseen t
+  /\ (tstamp t = Some (sstamp s) -> forall x, held s1 t1 x <-> (held s t x \/ (e = None /\ x = cid c)))
+  /\ tadded t1 = (match e with None => cid c :: tadded t | Some _ => tadded t end).
+Proof. intros; eapply add_single_ok; eauto. Qed.
+Lemma chain_reach' pp0 base mc0 pcm :
+  chain facts eval pp0 base mc0 pcm -> forall W w rest, pcm = w :: rest ->
+  (forall x, In x pcm -> stored W x) ->
+  forall x, anc (sg W) x (wid w) <-> In x (map wid pcm) \/ R W (prior_ids pp0) x.
+Proof. intros; eapply chain_reach; eauto. Qed.
 
 (** the committed commands of a replica *)
 Definition committed s (x : N) : Prop := R (sW s) (sheads s) x.
@@ -167,6 +251,1139 @@ Proof.
   - apply (si_sorted _ _ _ _ _ _ _ HS).
   - apply sorted_NoDup. apply (si_sorted _ _ _ _ _ _ _ HS).
   - intros h Hh. apply WInv_init_anc; [apply (si_W _ _ _ _ _ _ _ HS)|]. apply (si_heads_in _ _ _ _ _ _ _ HS); auto.
+Qed.
+
+(** * C10 — a graph is bound to its init command *)
+Definition init_entry (c : cmd) (f : facts) : wcmd := {| wc := c; wmc := 0; wfacts := f |}.
+
+Definition init_binding_stmt : Prop :=
+  (* receiving commands for a graph that does not exist locally *)
+  (forall t, add_commands None t [] = (None, t, [], RErr EInitError))
+  /\ (forall t c rest, cid c <> gid \/ cpar c <> PNone \/ has_policy c = false ->
+        add_commands None t (c :: rest) = (None, t, [], RErr EInitError))
+  /\ (forall t c rest e d effs, cid c = gid -> cpar c = PNone -> has_policy c = true ->
+        eval c fempty = Fail e d effs ->
+        add_commands None t (c :: rest) = (None, t, SBegin :: consumes effs ++ [SRollback], RErr (EPolicy e)))
+  /\ (forall t c rest f effs, cid c = gid -> cpar c = PNone -> has_policy c = true ->
+        eval c fempty = Accept f effs ->
+        exists s0, sW s0 = [init_entry c f] /\ sheads s0 = [gid] /\ scache s0 = f /\
+        add_commands None t (c :: rest) =
+          (let '(s1, t1, l, r) := add_loop s0 (capture s0 t) rest 1 (SBegin :: consumes effs ++ [SCommit]) in
+           (Some s1, t1, l, r)))
+  (* a graph that exists *)
+  /\ (forall s t c rest n l, cpar c = PNone -> cid c = gid ->
+        add_loop s t (c :: rest) n l = add_loop s t rest n l)
+  /\ (forall s t c rest n l, cpar c = PNone -> cid c <> gid ->
+        match tpersp t with Some p => includes p (cid c) | None => false end = false ->
+        locate s t (cid c) = false ->
+        add_loop s t (c :: rest) n l = (s, t, l, RErr EInitError))
+  (* the graph id is the id of the one parentless command of the stored graph, and nothing stored
+     under another id is parentless *)
+  /\ (forall ops, rclash (run r0 ops) = false ->
+      match rstore (run r0 ops) with
+      | None => True
+      | Some s => exists w0 pre, sW s = pre ++ [w0] /\ wid w0 = gid /\ cpar (wc w0) = PNone
+                  /\ forall w, In w pre -> cpar (wc w) <> PNone
+      end).
+
+Lemma WInv_one_root W : WInv W ->
+  exists w0 pre, W = pre ++ [w0] /\ wid w0 = gid /\ cpar (wc w0) = PNone /\ forall w, In w pre -> cpar (wc w) <> PNone.
+Proof.
+  induction 1 as [c f effs Hc Hp He | w r Hr IH Hn Hok].
+  - eexists; exists []. cbn. splits; auto.
+  - destruct IH as (w0 & pre & -> & H1 & H2 & H3). exists w0, (w :: pre). cbn. splits; auto.
+    intros x [<-|Hx]; auto. unfold entry_ok in Hok. intros E. rewrite E in Hok. auto.
+Qed.
+
+Lemma init_binding_proof : init_binding_stmt.
+Proof.
+  unfold init_binding_stmt. splits.
+  - reflexivity.
+  - intros t c rest H. unfold Txn.add_commands, Txn.init.
+    destruct (N.eqb_spec (cid c) gid) as [E|E]; cbn [negb]; auto.
+    destruct (prior_eqb (cpar c) PNone) eqn:Ep; cbn [negb]; auto.
+    apply prior_eqb_eq in Ep. destruct (has_policy c) eqn:Eh; cbn [negb]; auto.
+    exfalso. destruct H as [H|[H|H]]; congruence.
+  - intros t c rest e d effs E1 E2 E3 E4. unfold Txn.add_commands, Txn.init.
+    rewrite E1, N.eqb_refl, E2, E3, E4. reflexivity.
+  - intros t c rest f effs E1 E2 E3 E4. eexists. splits; cycle 3.
+    + unfold Txn.add_commands, Txn.init. rewrite E1, N.eqb_refl, E2, E3. cbn [negb prior_eqb]. rewrite <- E1, E4.
+      reflexivity.
+    + reflexivity.
+    + cbn. congruence.
+    + reflexivity.
+  - intros s t c rest n l E1 E2. cbn [Txn.add_loop].
+    destruct (match tpersp t with Some p => includes p (cid c) | None => false end); auto.
+    destruct (locate s t (cid c)); auto. rewrite E1, E2, N.eqb_refl. auto.
+  - intros s t c rest n l E1 E2 E3 E4. cbn [Txn.add_loop]. rewrite E3, E4, E1.
+    destruct (N.eqb_spec (cid c) gid); [congruence|auto].
+  - intros ops Hc. pose proof (RInv_run' ops Hc) as HR. unfold TxnInv.RInv in HR.
+    destruct (rstore (run r0 ops)) as [s|]; auto. destruct HR as [HS _].
+    apply WInv_one_root. apply (si_W _ _ _ _ _ _ _ HS).
+Qed.
+
+(** * C08 — transactions are isolated and history only grows *)
+Lemma committed_sext s s' : SInv s -> sext s s' -> WInv (sW s') -> forall y, committed s' y <-> committed s y.
+Proof.
+  intros HS (He & Eh & _) HW y. unfold committed. rewrite Eh. apply R_ext'; auto.
+  apply (si_heads_in _ _ _ _ _ _ _ HS).
+Qed.
+
+Lemma commit_spec s t so' l x :
+  SInv s -> TInv s t -> commit (Some s) t = (so', l, x) ->
+  match so' with Some s' => sclash s' = false | None => True end ->
+  exists s', so' = Some s' /\
+   ((x = ROkB true /\ tstamp t = Some (sstamp s) /\ sncommit s' = (sncommit s + 1)%N
+     /\ (sstamp s < sstamp s')%N
+     /\ (forall y, committed s' y <-> committed s y \/ In y (tadded t)))
+    \/ (x <> ROkB true /\ sheads s' = sheads s /\ scache s' = scache s /\ sstamp s' = sstamp s
+        /\ sncommit s' = sncommit s /\ (forall y, committed s' y <-> committed s y)))
+   /\ (x = RErr EConcurrentTransaction <-> (tstamp t <> None /\ tseen t <> sncommit s))
+   /\ (x = RErr EConcurrentTransaction -> s' = s)
+   /\ (x = ROkB false -> tstamp t = None /\ s' = s).
+Proof.
+  intros HS HT Hcm Hc. unfold Txn.commit in Hcm.
+  pose proof HT as (H0 & Hf & Hst).
+  destruct (tstamp t) as [o|] eqn:Es.
+  2:{ inv Hcm. exists s. split; [reflexivity|]. split; [right; splits; auto; try discriminate; tauto|].
+      split; [split; [discriminate|intros [H _]; congruence]|]. split; [discriminate|auto]. }
+  unfold stamp_ok in Hst. rewrite Es in Hst. destruct Hst as (S1 & S2 & S3).
+  destruct (N.eqb_spec o (sstamp s)) as [Eo|Eo]; cbn [negb] in Hcm.
+  2:{ inv Hcm. exists s. split; [reflexivity|]. split; [right; splits; auto; try discriminate; tauto|].
+      split; [split; auto; intros _; split; [discriminate|]; intros E; apply Eo; apply S3; auto|].
+      split; [auto|discriminate]. }
+  subst o.
+  assert (Hseen : tseen t = sncommit s) by (apply S3; auto).
+  destruct (write_perspective s t) as [[s1 t1] e] eqn:Ew.
+  assert (Hc1 : sclash s1 = false).
+  { destruct e; [inv Hcm; auto|]. destruct (ttips t1) as [|h0 tl]; [inv Hcm; auto|].
+    destruct (fold_left _ _ _) as [|h [|h2 hs]]; try solve [destruct (braid _ _); inv Hcm; auto].
+    destruct (wlookup (sW s1) h); inv Hcm; auto. }
+  destruct (write_perspective_ok' _ _ _ _ _ HS HT Ew Hc1) as (A & B & C & D & E1 & E2 & E3 & F).
+  pose proof (committed_sext s s1 HS B (si_W _ _ _ _ _ _ _ A)) as Hcs.
+  assert (Hkeep : forall x0 : res, x0 <> ROkB true -> x0 <> RErr EConcurrentTransaction -> x0 <> ROkB false ->
+     exists s', Some s1 = Some s' /\
+     ((x0 = ROkB true /\ Some (sstamp s) = Some (sstamp s) /\ sncommit s' = (sncommit s + 1)%N
+        /\ (sstamp s < sstamp s')%N /\ (forall y, committed s' y <-> committed s y \/ In y (tadded t)))
+      \/ (x0 <> ROkB true /\ sheads s' = sheads s /\ scache s' = scache s /\ sstamp s' = sstamp s
+          /\ sncommit s' = sncommit s /\ (forall y, committed s' y <-> committed s y)))
+     /\ (x0 = RErr EConcurrentTransaction <-> (Some (sstamp s) <> None /\ tseen t <> sncommit s))
+     /\ (x0 = RErr EConcurrentTransaction -> s' = s)
+     /\ (x0 = ROkB false -> Some (sstamp s) = None /\ s' = s)).
+  { intros x0 N1 N2 N3. exists s1. destruct B as (B1 & B2 & B3 & B4 & B5 & B6).
+    split; [reflexivity|]. split; [right; splits; auto|].
+    split; [split; [tauto|intros [_ H]; congruence]|]. split; tauto. }
+  destruct e as [err|].
+  { inv Hcm. apply Hkeep; try discriminate.
+    unfold write_perspective in Ew. destruct (tpersp t); [|inv Ew].
+    destruct (match tpparents t with PSingle _ => _ | _ => false end); [inv Ew|].
+    destruct (write s p) as [[? ?]|]; inv Ew. discriminate. }
+  pose proof C as (C0 & Cf & Cs). pose proof C0 as [T1 T2 T3 T4].
+  assert (Efresh : tstamp t1 = Some (sstamp s1)).
+  { rewrite E1, Es. destruct B as (_ & _ & _ & -> & _). auto. }
+  destruct (Cf Efresh) as [G1 G2 G3 G4 G5].
+  destruct (ttips t1) as [|h0 tl] eqn:Et.
+  { exfalso. destruct (sheads s1) as [|h hs] eqn:Eh; [apply (si_heads_ne _ _ _ _ _ _ _ A); auto|].
+    destruct (G1 h (or_introl eq_refl)) as (t0 & [] & _). }
+  assert (Ehs : fold_left (fun l i => hs_push i l) (ttips t1) [] = ttips t1) by (rewrite Et; apply tins_sorted_id; auto).
+  rewrite <- Et in Hcm. rewrite Ehs in Hcm.
+  assert (Hcom : forall fc y, committed (commit_heads s1 (ttips t1) fc) y <-> committed s y \/ In y (tadded t)).
+  { intros fc y. unfold committed. cbn [sW sheads Txn.commit_heads].
+    rewrite Et. rewrite (F Es y). destruct (Hf eq_refl) as [K1 K2 K3 K4 K5]. apply K5. }
+  assert (Hgood : forall fc, exists s', Some (commit_heads s1 (ttips t1) fc) = Some s' /\
+     ((ROkB true = ROkB true /\ Some (sstamp s) = Some (sstamp s) /\ sncommit s' = (sncommit s + 1)%N
+        /\ (sstamp s < sstamp s')%N /\ (forall y, committed s' y <-> committed s y \/ In y (tadded t)))
+      \/ (ROkB true <> ROkB true /\ sheads s' = sheads s /\ scache s' = scache s /\ sstamp s' = sstamp s
+          /\ sncommit s' = sncommit s /\ (forall y, committed s' y <-> committed s y)))
+     /\ (ROkB true = RErr EConcurrentTransaction <-> (Some (sstamp s) <> None /\ tseen t <> sncommit s))
+     /\ (ROkB true = RErr EConcurrentTransaction -> s' = s)
+     /\ (ROkB true = ROkB false -> Some (sstamp s) = None /\ s' = s)).
+  { intros fc. eexists. split; [reflexivity|]. destruct B as (B1 & B2 & B3 & B4 & B5 & B6).
+    split; [left; splits; auto|].
+    - cbn. lia.
+    - rewrite <- B4. eapply commit_heads_stamp; eauto.
+    - split; [split; [discriminate|intros [_ H]; congruence]|]. split; discriminate. }
+  destruct (ttips t1) as [|h [|h2 hs]] eqn:Et1; [discriminate| |].
+  - destruct (wlookup (sW s1) h) as [wh|] eqn:El; inv Hcm; [apply Hgood|apply Hkeep; discriminate].
+  - destruct (braid (reachset (sW s1) (h :: h2 :: hs)) (h :: h2 :: hs)) as [fc effs| |err effs|] eqn:Eb; inv Hcm;
+      try (apply Hgood); apply Hkeep; cbn; try discriminate.
+Qed.
+
+(** reachability through the merges written by [collapse_heads] *)
+Definition is_merge_id (y : N) : Prop := exists a b, y = merge_id a b.
+
+Lemma collapse_step_reach s a b s' m :
+  SInv s -> In a (map wid (sW s)) -> In b (map wid (sW s)) ->
+  collapse_step s a b = inl (s', m) -> sclash s' = false ->
+  is_merge_id m /\ forall y, anc (sg (sW s')) y m <-> y = m \/ R (sW s) [a; b] y.
+Proof.
+  intros HS Ha Hb Hst Hc. pose proof Hst as Hst0. unfold Txn.collapse_step in Hst.
+  destruct (N.eqb_spec a b) as [|Hab]; [discriminate|].
+  destruct (if (b <? a)%N then (b, a) else (a, b)) as [l rgt] eqn:Elr.
+  assert (Hset : forall y, R (sW s) [l; rgt] y <-> R (sW s) [a; b] y).
+  { intros y. destruct (b <? a)%N; inv Elr; [|tauto]. unfold TxnGraph.R. split; intros (h & Hh & Hy); exists h; cbn in *; tauto. }
+  assert (Hl : In l (map wid (sW s)) /\ In rgt (map wid (sW s))) by (destruct (b <? a)%N; inv Elr; auto).
+  destruct Hl as [Hl Hr].
+  destruct (braid (reachset (sW s) [l; rgt]) [l; rgt]) as [f effs| | |] eqn:Eb; try discriminate.
+  destruct (merge_persp (sW s) (mk_merge l rgt) l rgt f) as [p|] eqn:Em; [|discriminate].
+  destruct (write s p) as [[s2 hid]|] eqn:Ew; inv Hst.
+  destruct (merge_persp_PInv' _ _ _ _ _ _ _ Hl Hr Eb Em) as (HP & w & Epc & Ewc).
+  destruct (write_ok' s p s' m (si_W _ _ _ _ _ _ _ HS) HP Ew Hc (si_clash _ _ _ _ _ _ _ HS)) as (HW' & Hse & Hsto & w0 & rest & Ec & ->).
+  rewrite Epc in Ec. inv Ec.
+  assert (Hst' : stored (sW s') w0) by (apply Hsto; rewrite Epc; cbn; auto).
+  split.
+  - unfold wid. rewrite Ewc. cbn. exists l, rgt. auto.
+  - intros y. rewrite (anc_unfold _ _ _ y (stored_lookup _ _ _ Hst')). rewrite Ewc. cbn [parents cpar Txn.mk_merge].
+    rewrite <- Hset. unfold TxnGraph.R. destruct Hse as (He & _).
+    split.
+    + intros [->|(q & Hq & Hy)]; auto. right. exists q. split; auto.
+      apply (anc_ext' (sW s) (sW s')); auto. destruct Hq as [<-|[<-|[]]]; auto.
+    + intros [->|(q & Hq & Hy)]; auto. right. exists q. split; auto.
+      apply (anc_ext' (sW s) (sW s')); auto. destruct Hq as [<-|[<-|[]]]; auto.
+Qed.
+
+Lemma collapse_go_reach n : forall s q s1 m,
+  SInv s -> (forall x, In x q -> In x (map wid (sW s))) ->
+  collapse_go n s q = (s1, inl m) -> sclash s1 = false ->
+  (forall y, R (sW s) q y -> anc (sg (sW s1)) y m)
+  /\ (forall y, anc (sg (sW s1)) y m -> R (sW s) q y \/ is_merge_id y).
+Proof.
+  induction n as [|n IH]; intros s q s1 m HS Hq Hg Hc; cbn [Txn.collapse_go] in Hg; [discriminate|].
+  destruct q as [|a [|b rest]]; [discriminate| |].
+  - inv Hg. split.
+    + intros y (h & [<-|[]] & Hy). auto.
+    + intros y Hy. left. exists m. cbn; auto.
+  - destruct (collapse_step s a b) as [[s' mm]|e] eqn:Es; [|discriminate].
+    assert (Hc' : sclash s' = false).
+    { eapply cmono_false; [|exact Hc]. eapply collapse_go_cmono; eauto. }
+    destruct (collapse_step_ok' s a b s' mm HS) as (A & B & C & D); auto; try (apply Hq; cbn; auto).
+    destruct (collapse_step_reach s a b s' mm HS) as (Hmid & Hmm); auto; try (apply Hq; cbn; auto).
+    assert (Hq' : forall x, In x (rest ++ [mm]) -> In x (map wid (sW s'))).
+    { intros x Hx. apply in_app_or in Hx. destruct Hx as [Hx|[<-|[]]]; auto.
+      eapply ids_ext; [apply B|]. apply Hq. cbn; auto. }
+    destruct (IH s' (rest ++ [mm]) s1 m A Hq' Hg Hc) as [I1 I2].
+    assert (Hrest : forall y, R (sW s') rest y <-> R (sW s) rest y).
+    { intros y. apply R_ext'; [apply (si_W _ _ _ _ _ _ _ A)|apply B|]. intros h Hh. apply Hq. cbn; auto. }
+    split.
+    + intros y (h & Hh & Hy). apply I1. apply R_app.
+      destruct Hh as [<-|[<-|Hh]].
+      * right. exists mm. split; [cbn; auto|]. apply Hmm. right. exists a. cbn; auto.
+      * right. exists mm. split; [cbn; auto|]. apply Hmm. right. exists b. cbn; auto.
+      * left. apply Hrest. exists h; auto.
+    + intros y Hy. destruct (I2 y Hy) as [Hr|Hm]; auto. apply R_app in Hr. destruct Hr as [Hr|(h & [<-|[]] & Hy')].
+      * left. apply Hrest in Hr. destruct Hr as (h & Hh & Hy'). exists h. cbn; auto.
+      * apply Hmm in Hy'. destruct Hy' as [->|(h & Hh & Hy')]; auto.
+        left. exists h. split; auto. cbn in *. tauto.
+Qed.
+
+Lemma publish_ids cs : forall (p : persp facts) i fail log p' log',
+  publish p cs i fail log = inl (p', log') ->
+  map wid (pcmds p') = rev (map pid cs) ++ map wid (pcmds p).
+Proof.
+  induction cs as [|pc cs IH]; intros p i fail log p' log' Hp; cbn [Txn.publish] in Hp.
+  - destruct (match fail with Some k => Nat.eqb k i | None => false end); inv Hp. auto.
+  - destruct (match fail with Some k => Nat.eqb k i | None => false end); [discriminate|].
+    destruct (eval _ (pfacts p)) as [f effs|]; [|discriminate].
+    destruct (add_command p _ f) as [p1|] eqn:Ea; [|discriminate].
+    unfold add_command in Ea. destruct (prior_eqb _ _); inv Ea.
+    rewrite (IH _ _ _ _ _ _ Hp). cbn. rewrite <- app_assoc. reflexivity.
+Qed.
+
+Lemma publish_log cs : forall (p : persp facts) i fail log,
+  match publish p cs i fail log with
+  | inl (_, log') => exists m, log' = log ++ m /\ forall e, In e m -> exists x, e = SConsume x
+  | inr (_, log') => exists m, log' = log ++ m /\ forall e, In e m -> exists x, e = SConsume x
+  end.
+Proof.
+  assert (Hcons : forall effs e, In e (consumes effs) -> exists x, e = SConsume x).
+  { intros effs e H. unfold consumes in H. apply in_map_iff in H. destruct H as (x & <- & _). eauto. }
+  induction cs as [|pc cs IH]; intros p i fail log; cbn [Txn.publish].
+  - destruct (match fail with Some k => Nat.eqb k i | None => false end); exists []; rewrite app_nil_r; split; auto; intros e [].
+  - destruct (match fail with Some k => Nat.eqb k i | None => false end).
+    { exists []; rewrite app_nil_r; split; auto; intros e []. }
+    destruct (eval _ (pfacts p)) as [f effs|err d effs].
+    + destruct (add_command p _ f) as [p1|].
+      * specialize (IH p1 (S i) fail (log ++ consumes effs)).
+        destruct (publish p1 cs (S i) fail (log ++ consumes effs)) as [[p2 l2]|[e2 l2]];
+          destruct IH as (m & -> & Hm); exists (consumes effs ++ m); rewrite app_assoc; split; auto;
+          intros e He; apply in_app_or in He; destruct He; eauto.
+      * exists (consumes effs). split; auto. eauto.
+    + exists (consumes effs). split; auto. eauto.
+Qed.
+
+(** what an action does *)
+Lemma do_action_spec s a so' l x :
+  SInv s -> do_action (Some s) a = (so', l, x) ->
+  match so' with Some s' => sclash s' = false | None => True end ->
+  exists s', so' = Some s' /\
+  ((x = ROk
+    /\ (exists pc pcs, rev (acmds a) = pc :: pcs
+        /\ sheads s' = [pid pc]
+        /\ (exists wh, wlookup (sW s') (pid pc) = Some wh /\ scache s' = wfacts wh))
+    /\ sncommit s' = (sncommit s + 1)%N /\ (sstamp s < sstamp s')%N
+    /\ (forall h, In h (sheads s) -> forall hd, In hd (sheads s') -> anc (sg (sW s')) h hd)
+    /\ (forall y, committed s y -> committed s' y)
+    /\ (forall y, committed s' y -> committed s y \/ is_merge_id y \/ In y (map pid (acmds a)))
+    /\ (exists m, l = SBegin :: m ++ [SCommit] /\ forall e, In e m -> exists z, e = SConsume z))
+   \/ (x <> ROk /\ sheads s' = sheads s /\ scache s' = scache s /\ sstamp s' = sstamp s
+       /\ sncommit s' = sncommit s /\ (forall y, committed s' y <-> committed s y)
+       /\ ~ In SCommit l)).
+Proof.
+  intros HS Hd Hc. unfold Txn.do_action in Hd.
+  destruct (collapse_heads s (sheads s)) as [s1 rres] eqn:Ecol. unfold Txn.collapse_heads in Ecol.
+  assert (Hc1 : sclash s1 = false).
+  { destruct rres as [head|e]; [|inv Hd; auto].
+    destruct (get_linear_perspective (sW s1) head) as [p|]; [|inv Hd; auto].
+    destruct (publish p (acmds a) 0 (afail a) _) as [[p' lg]|[e lg]]; [|inv Hd; auto].
+    destruct (write s1 p') as [[s2 hid]|] eqn:Ew; [|inv Hd; auto].
+    pose proof (write_cmono _ _ _ _ _ Ew) as Hm.
+    destruct (wlookup (sW s2) hid); inv Hd; eapply cmono_false; eauto. }
+  destruct (collapse_go_ok' _ _ _ _ _ HS (si_heads_in _ _ _ _ _ _ _ HS) Ecol Hc1) as (A & B & C & D).
+  pose proof (committed_sext s s1 HS B (si_W _ _ _ _ _ _ _ A)) as Hcs1.
+  assert (Hnc : forall m0, (forall e, In e m0 -> exists z, e = SConsume z) -> ~ In SCommit (SBegin :: m0)).
+  { intros m0 Hm [E|Hin]; [discriminate|]. destruct (Hm _ Hin); discriminate. }
+  assert (Hkeep : forall (x0 : res) l0, x0 <> ROk -> ~ In SCommit l0 ->
+      (x0 <> ROk /\ sheads s1 = sheads s /\ scache s1 = scache s /\ sstamp s1 = sstamp s
+       /\ sncommit s1 = sncommit s /\ (forall y, committed s1 y <-> committed s y) /\ ~ In SCommit l0)).
+  { intros x0 l0 N1 N2. destruct B as (B1 & B2 & B3 & B4 & B5 & B6). splits; auto. }
+  destruct rres as [head|e]; [|inv Hd; exists s1; split; [reflexivity|right; apply Hkeep; [discriminate|cbn; tauto]]].
+  destruct (get_linear_perspective (sW s1) head) as [p|] eqn:Eg;
+    [|inv Hd; exists s1; split; [reflexivity|right; apply Hkeep; [discriminate|cbn; tauto]]].
+  set (log0 := SBegin :: (if adump a then consumes (facts_effs (pfacts p)) else [])) in *.
+  assert (Hlog0 : exists m0, log0 = SBegin :: m0 /\ forall e, In e m0 -> exists z, e = SConsume z).
+  { unfold log0. eexists. split; [reflexivity|]. destruct (adump a); [|intros e []].
+    intros e H. unfold consumes in H. apply in_map_iff in H. destruct H as (z & <- & _). eauto. }
+  destruct Hlog0 as (m0 & El0 & Hm0).
+  pose proof (publish_log (acmds a) p 0 (afail a) log0) as Hpl.
+  destruct (publish p (acmds a) 0 (afail a) log0) as [[p' lg]|[e lg]] eqn:Ep.
+  2:{ inv Hd. exists s1; split; [reflexivity|right]. apply Hkeep; [discriminate|]. destruct Hpl as (m1 & -> & Hm1). rewrite El0. cbn.
+      intros [E|Hin]; [discriminate|]. apply in_app_or in Hin. destruct Hin as [Hin|[E|[]]]; [|discriminate].
+      apply in_app_or in Hin. destruct Hin as [Hin|Hin]; [destruct (Hm0 _ Hin)|destruct (Hm1 _ Hin)]; discriminate. }
+  destruct Hpl as (m1 & Elg & Hm1).
+  assert (Hncl : ~ In SCommit lg).
+  { rewrite Elg, El0. cbn. intros [E|Hin]; [discriminate|]. apply in_app_or in Hin.
+    destruct Hin as [Hin|Hin]; [destruct (Hm0 _ Hin)|destruct (Hm1 _ Hin)]; discriminate. }
+  destruct (write s1 p') as [[s2 hid]|] eqn:Ew;
+    [|inv Hd; exists s1; split; [reflexivity|right; apply Hkeep; [discriminate|auto]]].
+  assert (HP : PInv (sW s1) p).
+  { unfold get_linear_perspective in Eg. destruct (wlookup (sW s1) head) as [wh|] eqn:El; inv Eg.
+    split; cbn; [constructor|]. unfold base_ok. cbn. eauto. }
+  assert (Epp : pp p = PSingle head /\ pcmds p = []).
+  { unfold get_linear_perspective in Eg. destruct (wlookup (sW s1) head); inv Eg. auto. }
+  destruct Epp as [Epp Epc].
+  destruct (publish_PInv' _ _ _ _ _ _ _ _ HP Ep) as [HP' Epp'].
+  pose proof (publish_ids _ _ _ _ _ _ _ Ep) as Eids. rewrite Epc in Eids. cbn in Eids. rewrite app_nil_r in Eids.
+  assert (Hc2 : sclash s2 = false) by (destruct (wlookup (sW s2) hid); inv Hd; auto).
+  destruct (write_ok' s1 p' s2 hid (si_W _ _ _ _ _ _ _ A) HP' Ew Hc2 (si_clash _ _ _ _ _ _ _ A)) as (HW2 & Hse & Hsto & w0 & rest & Ec & ->).
+  assert (A2 : SInv s2) by (eapply SInv_sext'; eauto).
+  pose proof (committed_sext s1 s2 A Hse HW2) as Hcs2.
+  destruct (wlookup (sW s2) (wid w0)) as [wh|] eqn:El.
+  2:{ inv Hd. exists s2. split; auto. right.
+      destruct B as (B1 & B2 & B3 & B4 & B5 & B6). destruct Hse as (D1 & D2 & D3 & D4 & D5 & D6).
+      splits; try congruence; try discriminate; auto. intros y. rewrite Hcs2. auto. }
+  inv Hd. eexists. split; [reflexivity|]. left.
+  (* reachability from the new head *)
+  assert (Hreach : forall y, anc (sg (sW s2)) y (wid w0) <-> In y (map wid (pcmds p')) \/ R (sW s2) [head] y).
+  { destruct HP' as [Hch _]. intros y.
+    rewrite (chain_reach' _ _ _ _ Hch (sW s2) w0 rest Ec Hsto y). rewrite Epp', Epp. cbn. tauto. }
+  destruct (collapse_go_reach _ _ _ _ _ HS (si_heads_in _ _ _ _ _ _ _ HS) Ecol Hc1) as [K1 K2].
+  assert (Hhead2 : forall y, R (sW s2) [head] y <-> anc (sg (sW s1)) y head).
+  { intros y. destruct Hse as (He2 & _). rewrite (R_ext' (sW s1) (sW s2)); auto.
+    - unfold TxnGraph.R. split; [intros (h & [<-|[]] & Hy); auto|intros Hy; exists head; cbn; auto].
+    - intros h [<-|[]]. auto. }
+  assert (Hwid : pid (hd {| pid := 0; pprio := PMerge; pbody := 0 |} (rev (acmds a))) = wid w0
+                 /\ rev (acmds a) <> []).
+  { rewrite Ec in Eids. cbn in Eids. destruct (rev (acmds a)) as [|pc pcs] eqn:Er.
+    - rewrite <- (rev_involutive (acmds a)), Er in Eids. cbn in Eids. discriminate.
+    - split; [|discriminate]. rewrite <- (rev_involutive (acmds a)), Er in Eids. cbn [rev] in Eids.
+      rewrite map_app, rev_app_distr in Eids. cbn in Eids. inv Eids. cbn. auto. }
+  destruct Hwid as [Hwid Hne]. destruct (rev (acmds a)) as [|pc pcs] eqn:Er; [congruence|]. cbn in Hwid.
+  destruct B as (B1 & B2 & B3 & B4 & B5 & B6). destruct Hse as (D1 & D2 & D3 & D4 & D5 & D6).
+  splits; auto.
+  - exists pc, pcs. splits; auto.
+    + cbn. rewrite Hwid. auto.
+    + exists wh. rewrite Hwid. auto.
+  - cbn. lia.
+  - rewrite <- B4, <- D4. eapply commit_heads_stamp; eauto.
+  - cbn [sheads sW Txn.commit_heads]. intros h Hh hd [<-|[]]. apply Hreach. right. apply Hhead2. apply K1.
+    exists h. split; auto. apply anc_refl. rewrite ids_sg. apply (si_heads_in _ _ _ _ _ _ _ HS); auto.
+  - intros y Hy. unfold committed. cbn [sheads sW Txn.commit_heads]. exists (wid w0). split; [cbn; auto|].
+    apply Hreach. right. apply Hhead2. apply K1. auto.
+  - intros y (h & [<-|[]] & Hy). cbn [sW Txn.commit_heads] in Hy. apply Hreach in Hy. destruct Hy as [Hy|Hy].
+    + right. right. rewrite Eids in Hy. rewrite <- in_rev in Hy. auto.
+    + apply Hhead2 in Hy. destruct (K2 y Hy); auto.
+  - rewrite El0. exists (m0 ++ m1). cbn. rewrite <- !app_assoc. split; auto.
+    intros e He. apply in_app_or in He. destruct He; auto.
+Qed.
+
+Definition rcommitted r (x : N) : Prop := match rstore r with Some s => committed s x | None => False end.
+
+Lemma run_app ops1 : forall ops2 r, run r (ops1 ++ ops2) = run (run r ops1) ops2.
+Proof. induction ops1 as [|o ops1 IH]; intros ops2 r; cbn [app Txn.run]; auto. Qed.
+
+Lemma run_cmono' ops r : rclash r = true -> rclash (run r ops) = true.
+Proof. intros; eapply run_cmono; eauto. Qed.
+
+Lemma rclash_prefix ops1 ops2 : rclash (run r0 (ops1 ++ ops2)) = false -> rclash (run r0 ops1) = false.
+Proof.
+  rewrite run_app. intros H. destruct (rclash (run r0 ops1)) eqn:E; auto.
+  apply (run_cmono' ops2) in E. congruence.
+Qed.
+
+Lemma step_committed_mono r o x :
+  RInv r -> rclash (fst (fst (step r o))) = false -> rcommitted r x -> rcommitted (fst (fst (step r o))) x.
+Proof.
+  intros HR Hc Hx. unfold rcommitted in Hx. destruct (rstore r) as [s|] eqn:Es; [|tauto].
+  unfold TxnInv.RInv in HR. rewrite Es in HR. destruct HR as [HS HT].
+  destruct o as [k|k cs|k|k|a]; cbn [Txn.step] in *.
+  - unfold rcommitted. cbn. rewrite Es. auto.
+  - destruct (tx_get (rtxs r) k) as [t|] eqn:Et; [|unfold rcommitted; cbn; rewrite Es; auto].
+    destruct (add_commands (rstore r) t cs) as [[[so t'] l] res] eqn:E. cbn in *. rewrite Es in E.
+    pose proof (add_commands_ok' (Some s) t cs so t' l res (conj HS (HT _ _ Et)) E) as Hok.
+    unfold rcommitted, TxnInv.rclash in *. cbn in *. destruct so as [s'|].
+    + destruct (Hok Hc) as (A & _ & B & _). apply (committed_sext s s' HS B (si_W _ _ _ _ _ _ _ A)). auto.
+    + destruct (Hok I) as [E1 _]. discriminate.
+  - destruct (tx_get (rtxs r) k) as [t|] eqn:Et; [|unfold rcommitted; cbn; rewrite Es; auto]. rewrite Es in *.
+    destruct (write_perspective s t) as [[s1 t1] e] eqn:E. cbn in *. unfold TxnInv.rclash in Hc. cbn in Hc.
+    destruct (write_perspective_ok' _ _ _ _ _ HS (HT _ _ Et) E Hc) as (A & B & _).
+    unfold rcommitted. cbn. apply (committed_sext s s1 HS B (si_W _ _ _ _ _ _ _ A)). auto.
+  - destruct (tx_get (rtxs r) k) as [t|] eqn:Et; [|unfold rcommitted; cbn; rewrite Es; auto]. rewrite Es in *.
+    destruct (commit (Some s) t) as [[so l] res] eqn:E. cbn in *.
+    assert (Hc' : match so with Some s' => sclash s' = false | None => True end)
+      by (unfold TxnInv.rclash in Hc; cbn in Hc; destruct so; auto).
+    destruct (commit_spec s t so l res HS (HT _ _ Et) E Hc') as (s' & -> & [H|H] & _).
+    + unfold rcommitted. cbn. destruct H as (_ & _ & _ & _ & H). apply H. auto.
+    + unfold rcommitted. cbn. destruct H as (_ & _ & _ & _ & _ & H). apply H. auto.
+  - rewrite Es in *. destruct (do_action (Some s) a) as [[so l] res] eqn:E. cbn in *.
+    assert (Hc' : match so with Some s' => sclash s' = false | None => True end)
+      by (unfold TxnInv.rclash in Hc; cbn in Hc; destruct so; auto).
+    destruct (do_action_spec s a so l res HS E Hc') as (s' & -> & [H|H]).
+    + unfold rcommitted. cbn. destruct H as (_ & _ & _ & _ & _ & H & _). auto.
+    + unfold rcommitted. cbn. destruct H as (_ & _ & _ & _ & _ & H & _). apply H. auto.
+Qed.
+
+Lemma run_committed_mono ops : forall r x,
+  RInv r -> rclash (run r ops) = false -> rcommitted r x -> rcommitted (run r ops) x.
+Proof.
+  induction ops as [|o ops IH]; intros r x HR Hc Hx; cbn [Txn.run] in *; auto.
+  assert (Hc1 : rclash (fst (fst (step r o))) = false).
+  { destruct (rclash (fst (fst (step r o)))) eqn:E; auto. apply (run_cmono' ops) in E. congruence. }
+  apply IH; auto.
+  - apply step_ok'; auto.
+  - apply step_committed_mono; auto.
+Qed.
+
+(** did this operation execute [commit_heads]? *)
+Definition op_committed (o : op) (x : res) : bool :=
+  match o, x with
+  | Commit _, ROkB true => true
+  | Action _, ROk => true
+  | _, _ => false
+  end.
+
+Definition commit_isolated_stmt : Prop :=
+  (* history only grows, along any operation list *)
+  (forall ops1 ops2, rclash (run r0 (ops1 ++ ops2)) = false ->
+     forall x, rcommitted (run r0 ops1) x -> rcommitted (run r0 (ops1 ++ ops2)) x)
+  (* every commit, in every reachable state *)
+  /\ (forall ops k, rclash (run r0 (ops ++ [Commit k])) = false ->
+      forall s t, rstore (run r0 ops) = Some s -> tx_get (rtxs (run r0 ops)) k = Some t ->
+      let '(r', l, x) := step (run r0 ops) (Commit k) in
+      exists s', rstore r' = Some s' /\
+        ((x = ROkB true /\ tstamp t = Some (sstamp s) /\ sncommit s' = (sncommit s + 1)%N /\ (sstamp s < sstamp s')%N
+          /\ (forall y, committed s' y <-> committed s y \/ In y (tadded t)))
+         \/ (x <> ROkB true /\ sheads s' = sheads s /\ scache s' = scache s /\ sstamp s' = sstamp s
+             /\ sncommit s' = sncommit s /\ (forall y, committed s' y <-> committed s y)))
+        /\ (x = RErr EConcurrentTransaction <-> (tstamp t <> None /\ tseen t <> sncommit s))
+        /\ (x = RErr EConcurrentTransaction -> s' = s)
+        /\ (x = ROkB false -> tstamp t = None /\ s' = s))
+  (* the stamp changes on every commit_heads (both backends) and nowhere else; [sncommit] counts
+     exactly the successful commits and actions; [tseen] is [sncommit] when the stamp was captured *)
+  /\ (forall ops o, rclash (run r0 (ops ++ [o])) = false ->
+      forall s, rstore (run r0 ops) = Some s ->
+      let '(r', l, x) := step (run r0 ops) o in
+      exists s', rstore r' = Some s'
+        /\ sncommit s' = (sncommit s + (if op_committed o x then 1 else 0))%N
+        /\ (if op_committed o x then (sstamp s < sstamp s')%N else sstamp s' = sstamp s))
+  /\ (forall s t, tstamp t = None -> tseen (capture s t) = sncommit s /\ tstamp (capture s t) = Some (sstamp s)).
+
+Lemma commit_isolated_proof : commit_isolated_stmt.
+Proof.
+  unfold commit_isolated_stmt. splits.
+  - intros ops1 ops2 Hc x Hx. rewrite run_app in *. apply run_committed_mono; auto.
+    apply RInv_run'. eapply rclash_prefix. rewrite run_app. eauto.
+  - intros ops k Hc s t Es Et. rewrite run_app in Hc. cbn [Txn.run] in Hc.
+    pose proof (RInv_run' ops (rclash_prefix ops [Commit k] ltac:(rewrite run_app; exact Hc))) as HR.
+    unfold TxnInv.RInv in HR. rewrite Es in HR. destruct HR as [HS HT].
+    cbn [Txn.step] in *. rewrite Et in *. rewrite Es in *.
+    destruct (commit (Some s) t) as [[so l] res] eqn:E. cbn in Hc.
+    assert (Hc' : match so with Some s' => sclash s' = false | None => True end)
+      by (unfold TxnInv.rclash in Hc; cbn in Hc; destruct so; auto).
+    destruct (commit_spec s t so l res HS (HT _ _ Et) E Hc') as (s' & -> & H).
+    exists s'. split; auto.
+  - intros ops o Hc s Es. rewrite run_app in Hc. cbn [Txn.run] in Hc.
+    pose proof (RInv_run' ops (rclash_prefix ops [o] ltac:(rewrite run_app; exact Hc))) as HR.
+    unfold TxnInv.RInv in HR. rewrite Es in HR. destruct HR as [HS HT].
+    destruct o as [k|k cs|k|k|a]; cbn [Txn.step] in *.
+    + cbn. exists s. splits; auto. lia.
+    + destruct (tx_get (rtxs (run r0 ops)) k) as [t|] eqn:Et.
+      2:{ exists s. cbn. splits; auto. lia. }
+      destruct (add_commands (rstore (run r0 ops)) t cs) as [[[so t'] l] res] eqn:E. cbn in *. rewrite Es in E.
+      pose proof (add_commands_ok' (Some s) t cs so t' l res (conj HS (HT _ _ Et)) E) as Hok.
+      unfold TxnInv.rclash in Hc. cbn in Hc. destruct so as [s'|].
+      * destruct (Hok Hc) as (A & _ & (B1 & B2 & B3 & B4 & B5 & B6) & _). exists s'. splits; auto. lia.
+      * destruct (Hok I) as [E1 _]. discriminate.
+    + destruct (tx_get (rtxs (run r0 ops)) k) as [t|] eqn:Et.
+      2:{ exists s. cbn. splits; auto. lia. }
+      rewrite Es in *. destruct (write_perspective s t) as [[s1 t1] e] eqn:E. cbn in *.
+      unfold TxnInv.rclash in Hc. cbn in Hc.
+      destruct (write_perspective_ok' _ _ _ _ _ HS (HT _ _ Et) E Hc) as (A & (B1 & B2 & B3 & B4 & B5 & B6) & _).
+      exists s1. destruct e; splits; auto; lia.
+    + destruct (tx_get (rtxs (run r0 ops)) k) as [t|] eqn:Et.
+      2:{ exists s. cbn. splits; auto. lia. }
+      rewrite Es in *. destruct (commit (Some s) t) as [[so l] res] eqn:E. cbn in *.
+      assert (Hc' : match so with Some s' => sclash s' = false | None => True end)
+        by (unfold TxnInv.rclash in Hc; cbn in Hc; destruct so; auto).
+      destruct (commit_spec s t so l res HS (HT _ _ Et) E Hc') as (s' & -> & [H|H] & _).
+      * destruct H as (-> & _ & H1 & H2 & _). exists s'. cbn. splits; auto.
+      * destruct H as (N1 & _ & _ & H1 & H2 & _). exists s'. splits; auto.
+        -- destruct res as [| |[|]| |]; cbn; try lia. congruence.
+        -- destruct res as [| |[|]| |]; cbn; auto. congruence.
+    + rewrite Es in *. destruct (do_action (Some s) a) as [[so l] res] eqn:E. cbn in *.
+      assert (Hc' : match so with Some s' => sclash s' = false | None => True end)
+        by (unfold TxnInv.rclash in Hc; cbn in Hc; destruct so; auto).
+      destruct (do_action_spec s a so l res HS E Hc') as (s' & -> & [H|H]).
+      * destruct H as (-> & _ & H1 & H2 & _). exists s'. cbn. splits; auto.
+      * destruct H as (N1 & _ & _ & H1 & H2 & _). exists s'. splits; auto.
+        -- destruct res; cbn; try lia. congruence.
+        -- destruct res; cbn; auto. congruence.
+  - intros s t E. unfold capture. rewrite E. cbn. auto.
+Qed.
+
+(** * C07 — actions are atomic *)
+Definition action_atomic_stmt : Prop :=
+  forall ops a, rclash (run r0 (ops ++ [Action a])) = false ->
+  forall s, rstore (run r0 ops) = Some s ->
+  let '(r', l, x) := step (run r0 ops) (Action a) in
+  exists s', rstore r' = Some s' /\ rtxs r' = rtxs (run r0 ops) /\
+  ((x = ROk
+    (* all published commands are committed as ONE new head, with the facts stored at it *)
+    /\ (exists pc pcs, rev (acmds a) = pc :: pcs
+        /\ sheads s' = [pid pc]
+        /\ (exists wh, wlookup (sW s') (pid pc) = Some wh /\ scache s' = wfacts wh))
+    /\ sncommit s' = (sncommit s + 1)%N /\ (sstamp s < sstamp s')%N
+    (* which descends from every previous head *)
+    /\ (forall h, In h (sheads s) -> forall hd, In hd (sheads s') -> anc (sg (sW s')) h hd)
+    (* nothing is lost; what is new are the collapse's merges and the published commands *)
+    /\ (forall y, committed s y -> committed s' y)
+    /\ (forall y, committed s' y -> committed s y \/ is_merge_id y \/ In y (map pid (acmds a)))
+    (* the sink saw Begin, effects, Commit *)
+    /\ (exists m, l = SBegin :: m ++ [SCommit] /\ forall e, In e m -> exists z, e = SConsume z))
+   \/ (x <> ROk
+       (* nothing committed: heads, fact cache, stamp, committed set unchanged; no effects committed *)
+       /\ sheads s' = sheads s /\ scache s' = scache s /\ sstamp s' = sstamp s
+       /\ sncommit s' = sncommit s /\ (forall y, committed s' y <-> committed s y)
+       /\ ~ In SCommit l)).
+
+Lemma action_atomic_proof : action_atomic_stmt.
+Proof.
+  intros ops a Hc s Es. rewrite run_app in Hc. cbn [Txn.run] in Hc.
+  pose proof (RInv_run' ops (rclash_prefix ops [Action a] ltac:(rewrite run_app; exact Hc))) as HR.
+  unfold TxnInv.RInv in HR. rewrite Es in HR. destruct HR as [HS HT].
+  cbn [Txn.step] in *. rewrite Es in *.
+  destruct (do_action (Some s) a) as [[so l] res] eqn:E. cbn in Hc.
+  assert (Hc' : match so with Some s' => sclash s' = false | None => True end)
+    by (unfold TxnInv.rclash in Hc; cbn in Hc; destruct so; auto).
+  destruct (do_action_spec s a so l res HS E Hc') as (s' & -> & H).
+  exists s'. cbn. splits; auto.
+Qed.
+
+(** * C06 — commands rejected at origin leave no trace *)
+Definition stored_cmd s (c : cmd) : Prop := In c (sg (sW s)).
+
+Lemma add_loop_app pre : forall rest s t n l,
+  add_loop s t (pre ++ rest) n l =
+  match add_loop s t pre n l with
+  | (s1, t1, l1, ROkN n1) => add_loop s1 t1 rest n1 l1
+  | other => other
+  end.
+Proof.
+  induction pre as [|c pre IH]; intros rest s t n l; cbn [app Txn.add_loop]; auto.
+  destruct (match tpersp t with Some p => includes p (cid c) | None => false end); auto.
+  destruct (locate s t (cid c)); auto.
+  destruct (cpar c) as [|parent|a b].
+  - destruct (cid c =? gid)%N; auto.
+  - destruct (add_single s t c parent) as [[[s1 t1] l1] e]. destruct e; auto.
+  - destruct (add_merge s t c a b) as [[[s1 t1] l1] e]. destruct e; auto.
+Qed.
+
+Lemma add_all_ids cs : forall W cl W' cl' x,
+  add_all cs W cl = (W', cl') -> In x (map wid W') -> In x (map wid W) \/ In x (map wid cs).
+Proof.
+  induction cs as [|w cs IH]; intros W cl W' cl' x H Hx; cbn [add_all] in H.
+  - inv H. auto.
+  - destruct (wlookup W (wid w)).
+    + destruct (IH _ _ _ _ _ H Hx); auto. right. cbn. auto.
+    + destruct (IH _ _ _ _ _ H Hx) as [[<-|Hi]|Hi]; cbn; auto.
+Qed.
+
+Lemma write_perspective_ids s t s1 t1 e x :
+  write_perspective s t = (s1, t1, e) -> In x (map wid (sW s1)) -> In x (map wid (sW s)) \/ In x (pids t).
+Proof.
+  unfold write_perspective, pids. destruct (tpersp t) as [p|]; [|intros H; inv H; auto].
+  destruct (match tpparents t with PSingle _ => _ | _ => false end); [intros H; inv H; auto|].
+  unfold write. destruct (pcmds p) as [|w rest] eqn:Ep; [intros H; inv H; auto|].
+  destruct (add_all (rev (w :: rest)) (sW s) (sclash s)) as [W' cl] eqn:Ea. intros H Hx. inv H. cbn [sW] in Hx.
+  destruct (add_all_ids _ _ _ _ _ _ Ea Hx) as [Hi|Hi]; auto. right. rewrite map_rev in Hi. apply in_rev in Hi. auto.
+Qed.
+
+Lemma write_perspective_noerr s t s1 t1 e :
+  TInv s t -> write_perspective s t = (s1, t1, e) -> e = None.
+Proof.
+  intros (H0 & _) Hw. unfold write_perspective in Hw. destruct (tpersp t) as [p|] eqn:Ep; [|inv Hw; auto].
+  pose proof H0 as [T1 T2 T3 T4]. rewrite Ep in T3. destruct T3 as ((Hch & Hb) & Epp & Eph & Hne).
+  destruct (match tpparents t with PSingle parent => match tphead t with Some ph => (ph =? parent)%N | None => false end | _ => false end) eqn:Et;
+    [inv Hw; auto|].
+  destruct (write s p) as [[s' hid]|] eqn:Ew; [inv Hw; auto|]. exfalso.
+  unfold write in Ew. destruct (pcmds p) eqn:Epc; [|destruct (add_all _ _ _); discriminate].
+  unfold base_ok in Hb. unfold phead_id in Eph. rewrite Epc in Eph. rewrite Epp, Eph in Et.
+  destruct (pp p) as [|a|a b]; [tauto| |].
+  - rewrite N.eqb_refl in Et. discriminate.
+  - rewrite Epc in Hb. tauto.
+Qed.
+
+Definition rejected_no_trace_stmt : Prop :=
+  (* A: nothing stored (reachable or not) was ever rejected: every stored single-parent command was
+        accepted on the facts stored with its parent, and its stored facts are that result *)
+  (forall ops, rclash (run r0 ops) = false -> forall s, rstore (run r0 ops) = Some s ->
+     forall w a, In w (sW s) -> cpar (wc w) = PSingle a ->
+     exists wa effs, wlookup (sW s) a = Some wa /\ eval (wc w) (wfacts wa) = Accept (wfacts w) effs)
+  /\ (forall ops, rclash (run r0 ops) = false -> forall s, rstore (run r0 ops) = Some s ->
+     forall c a wa, cpar c = PSingle a -> wlookup (sW s) a = Some wa ->
+     (forall f effs, eval c (wfacts wa) <> Accept f effs) -> ~ stored_cmd s c)
+  (* B: a rule that fails at origin: the perspective is left exactly as it was before the rule ran
+        (revert is exact, C13), the effects are rolled back, the command is not added *)
+  /\ (forall s t c parent s1 t1 p e d effs,
+        get_perspective s t parent = (s1, t1, inl p) -> eval c (pfacts p) = Fail e d effs ->
+        add_single s t c parent = (s1, t1, SBegin :: consumes effs ++ [SRollback], Some (EPolicy e)))
+  (* C: the commands of the batch before the rejected one have been processed and stay in the
+        transaction: the error returns with the state reached after them *)
+  /\ (forall pre c rest s t n l s1 t1 l1 n1 parent s2 t2 l2 e,
+        add_loop s t pre n l = (s1, t1, l1, ROkN n1) ->
+        match tpersp t1 with Some p => includes p (cid c) | None => false end = false ->
+        locate s1 t1 (cid c) = false -> cpar c = PSingle parent ->
+        add_single s1 t1 c parent = (s2, t2, l2, Some e) ->
+        add_loop s t (pre ++ c :: rest) n l = (s2, t2, l1 ++ l2, RErr e))
+  (* ... and they are committed with their facts by the next Commit (C08: committed' = committed + tadded),
+        [tadded] being extended exactly by the commands whose add succeeded *)
+  /\ (forall ops k, rclash (run r0 ops) = false -> forall s t, rstore (run r0 ops) = Some s ->
+        tx_get (rtxs (run r0 ops)) k = Some t -> tstamp t <> None ->
+        forall c parent s1 t1 l e, ~ In (cid c) (pids t) -> ~ R (sW s) (sheads s ++ ttips t) (cid c) ->
+        add_single s t c parent = (s1, t1, l, e) -> sclash s1 = false ->
+        tadded t1 = match e with None => cid c :: tadded t | Some _ => tadded t end)
+  (* D: a later command naming a command that is not stored (e.g. a rejected one) as parent is refused *)
+  /\ (forall ops k, rclash (run r0 ops) = false -> forall s t, rstore (run r0 ops) = Some s ->
+        tx_get (rtxs (run r0 ops)) k = Some t ->
+        forall d p, ~ In p (map wid (sW s)) -> ~ In p (pids t) ->
+        exists s1 t1, add_single s t d p = (s1, t1, [], Some (ENoSuchParent p))).
+
+Lemma rejected_no_trace_proof : rejected_no_trace_stmt.
+Proof.
+  unfold rejected_no_trace_stmt.
+  assert (PA : forall ops, rclash (run r0 ops) = false -> forall s, rstore (run r0 ops) = Some s ->
+     forall w a, In w (sW s) -> cpar (wc w) = PSingle a ->
+     exists wa effs, wlookup (sW s) a = Some wa /\ eval (wc w) (wfacts wa) = Accept (wfacts w) effs).
+  { intros ops Hc s Es w a Hw Hp. pose proof (RInv_run' ops Hc) as HR. unfold TxnInv.RInv in HR. rewrite Es in HR.
+    destruct HR as [HS _]. destruct (WInv_entry' _ (si_W _ _ _ _ _ _ _ HS) w Hw) as [E|E]; [congruence|].
+    unfold entry_ok in E. rewrite Hp in E. destruct E as (wa & Hl & _ & effs & He). eauto. }
+  splits; auto.
+  - intros ops Hc s Es c a wa Hp Hl Hrej Hin. unfold stored_cmd, sg in Hin. apply in_map_iff in Hin.
+    destruct Hin as (w & <- & Hw). destruct (PA ops Hc s Es w a Hw Hp) as (wa' & effs & Hl' & He).
+    rewrite Hl in Hl'. inv Hl'. eapply Hrej; eauto.
+  - intros s t c parent s1 t1 p e d effs Hg He. unfold Txn.add_single. rewrite Hg, He. reflexivity.
+  - intros pre c rest s t n l s1 t1 l1 n1 parent s2 t2 l2 e H1 H2 H3 H4 H5.
+    rewrite add_loop_app, H1. cbn [Txn.add_loop]. rewrite H2, H3, H4, H5. reflexivity.
+  - intros ops k Hc s t Es Et Hns c parent s1 t1 l e Hnp Hnr Ha Hc1.
+    pose proof (RInv_run' ops Hc) as HR. unfold TxnInv.RInv in HR. rewrite Es in HR. destruct HR as [HS HT].
+    destruct (add_single_ok' s t c parent s1 t1 l e HS (HT _ _ Et) Hns Hnp) as (_ & _ & _ & _ & _ & _ & H); auto.
+    intros _ Hr. apply Hnr. apply R_app. auto.
+  - intros ops k Hc s t Es Et d p Hns Hnp.
+    pose proof (RInv_run' ops Hc) as HR. unfold TxnInv.RInv in HR. rewrite Es in HR. destruct HR as [HS HT].
+    pose proof (HT _ _ Et) as HTt. pose proof HTt as (H0 & _). pose proof H0 as [T1 T2 T3 T4].
+    unfold Txn.add_single, get_perspective.
+    assert (Eph : match tphead t with Some ph => (ph =? p)%N | None => false end = false).
+    { destruct (tpersp t) as [q|] eqn:Eq.
+      - destruct T3 as ((Hch & Hb) & Epp & Ephd & _). rewrite Ephd. unfold phead_id.
+        destruct (pcmds q) as [|w rest] eqn:Epc.
+        + destruct (pp q) as [|a|a b] eqn:Eppq; auto. destruct (N.eqb_spec a p); auto. subst a.
+          exfalso. apply Hns. eapply base_ok_parents; eauto. rewrite Eppq. cbn; auto.
+        + destruct (N.eqb_spec (wid w) p); auto. exfalso. apply Hnp. unfold pids. rewrite Eq, Epc. cbn; auto.
+      - destruct T3 as [-> _]. auto. }
+    rewrite Eph. destruct (write_perspective s t) as [[s1 t1] e] eqn:Ew.
+    rewrite (write_perspective_noerr _ _ _ _ _ HTt Ew).
+    assert (El : locate s1 t1 p = false).
+    { unfold locate. apply mem_false. intros Hin. apply closure_sub in Hin.
+      destruct (write_perspective_ids _ _ _ _ _ _ Ew Hin); auto. }
+    rewrite El. eauto.
+Qed.
+
+(** * C04 — lazy merges *)
+Lemma wmc_of_ext W W' i : WInv W' -> ext W W' -> In i (map wid W) -> wmc_of W' i = wmc_of W i.
+Proof.
+  intros HW He Hi. unfold wmc_of. apply wlookup_In_ids in Hi. destruct Hi as (w & Hl).
+  rewrite Hl. erewrite wlookup_ext; eauto.
+Qed.
+
+(** what [collapse_step] writes *)
+Lemma collapse_step_attr s a b s' m :
+  SInv s -> In a (map wid (sW s)) -> In b (map wid (sW s)) ->
+  collapse_step s a b = inl (s', m) -> sclash s' = false ->
+  synth_step (a, wmc_of (sW s) a) (b, wmc_of (sW s) b) = Some (m, wmc_of (sW s') m)
+  /\ exists wm effs, wlookup (sW s') m = Some wm
+       /\ braid (reachset (sW s) (if (b <? a)%N then [b; a] else [a; b])) (if (b <? a)%N then [b; a] else [a; b])
+          = BOk (wfacts wm) effs
+       /\ wc wm = (if (b <? a)%N then mk_merge b a else mk_merge a b).
+Proof.
+  intros HS Ha Hb Hst Hc. unfold Txn.collapse_step in Hst. unfold Txn.synth_step. cbn [fst snd].
+  destruct (N.eqb_spec a b) as [|Hab]; [discriminate|].
+  destruct (b <? a)%N eqn:Elt.
+  - destruct (braid (reachset (sW s) [b; a]) [b; a]) as [f effs| | |] eqn:Eb; try discriminate.
+    destruct (merge_persp (sW s) (mk_merge b a) b a f) as [p|] eqn:Em; [|discriminate].
+    destruct (write s p) as [[s2 hid]|] eqn:Ew; inv Hst.
+    destruct (merge_persp_PInv' _ _ _ _ _ _ _ Hb Ha Eb Em) as (HP & w & Epc & Ewc).
+    destruct (write_ok' s p s' m (si_W _ _ _ _ _ _ _ HS) HP Ew Hc (si_clash _ _ _ _ _ _ _ HS)) as (HW' & Hse & Hsto & w0 & rest & Ec & ->).
+    rewrite Epc in Ec. inv Ec. destruct (Hsto w0) as (wm & Hl & Hcm & Hf & Hmc); [rewrite Epc; cbn; auto|].
+    unfold Txn.merge_persp, add_command in Em. cbn [phead_addr pcmds pp] in Em.
+    destruct (prior_eqb _ _); inv Em. cbn [pcmds] in Epc. inv Epc. cbn [wfacts wmc wid wc] in *.
+    split.
+    + remember (wmc_of (sW s) a) as ma. remember (wmc_of (sW s) b) as mb.
+      unfold wmc_of. rewrite Hl, Hmc. unfold wid. cbn. f_equal. f_equal. lia.
+    + exists wm, effs. rewrite Hf. splits; auto.
+  - destruct (braid (reachset (sW s) [a; b]) [a; b]) as [f effs| | |] eqn:Eb; try discriminate.
+    destruct (merge_persp (sW s) (mk_merge a b) a b f) as [p|] eqn:Em; [|discriminate].
+    destruct (write s p) as [[s2 hid]|] eqn:Ew; inv Hst.
+    destruct (merge_persp_PInv' _ _ _ _ _ _ _ Ha Hb Eb Em) as (HP & w & Epc & Ewc).
+    destruct (write_ok' s p s' m (si_W _ _ _ _ _ _ _ HS) HP Ew Hc (si_clash _ _ _ _ _ _ _ HS)) as (HW' & Hse & Hsto & w0 & rest & Ec & ->).
+    rewrite Epc in Ec. inv Ec. destruct (Hsto w0) as (wm & Hl & Hcm & Hf & Hmc); [rewrite Epc; cbn; auto|].
+    unfold Txn.merge_persp, add_command in Em. cbn [phead_addr pcmds pp] in Em.
+    destruct (prior_eqb _ _); inv Em. cbn [pcmds] in Epc. inv Epc. cbn [wfacts wmc wid wc] in *.
+    split.
+    + remember (wmc_of (sW s) a) as ma. remember (wmc_of (sW s) b) as mb.
+      unfold wmc_of. rewrite Hl, Hmc. unfold wid. cbn. f_equal. f_equal. lia.
+    + exists wm, effs. rewrite Hf. splits; auto.
+Qed.
+
+Lemma collapse_hello n : forall s q s1 m,
+  SInv s -> (forall x, In x q -> In x (map wid (sW s))) ->
+  collapse_go n s q = (s1, inl m) -> sclash s1 = false ->
+  synth_go n (map (fun h => (h, wmc_of (sW s) h)) q) = Some (m, wmc_of (sW s1) m).
+Proof.
+  induction n as [|n IH]; intros s q s1 m HS Hq Hg Hc; cbn [Txn.collapse_go Txn.synth_go] in *; [discriminate|].
+  destruct q as [|a [|b rest]]; [discriminate| |]; cbn [map].
+  - inv Hg. reflexivity.
+  - destruct (collapse_step s a b) as [[s' mm]|e] eqn:Es; [|discriminate].
+    assert (Hc' : sclash s' = false) by (eapply cmono_false; [eapply collapse_go_cmono; eauto|auto]).
+    destruct (collapse_step_ok' s a b s' mm HS) as (A & B & C & D); auto; try (apply Hq; cbn; auto).
+    destruct (collapse_step_attr s a b s' mm HS) as (Hsy & _); auto; try (apply Hq; cbn; auto).
+    rewrite Hsy.
+    assert (Hq' : forall x, In x (rest ++ [mm]) -> In x (map wid (sW s'))).
+    { intros x Hx. apply in_app_or in Hx. destruct Hx as [Hx|[<-|[]]]; auto.
+      eapply ids_ext; [apply B|]. apply Hq. cbn; auto. }
+    rewrite <- (IH s' (rest ++ [mm]) s1 m A Hq' Hg Hc). f_equal. rewrite map_app. cbn. f_equal.
+    apply map_ext_in. intros x Hx. f_equal. symmetry. apply wmc_of_ext; [apply (si_W _ _ _ _ _ _ _ A)|apply B|].
+    apply Hq. cbn; auto.
+Qed.
+
+Definition lazy_merge_stmt : Prop :=
+  (* the hello head of a multi-head graph is the address (id, max cut) of the merge command the collapse writes *)
+  (forall ops, rclash (run r0 ops) = false -> forall s, rstore (run r0 ops) = Some s ->
+     forall s1 m, collapse_heads s (sheads s) = (s1, inl m) -> sclash s1 = false ->
+     hello_head s = Some (m, wmc_of (sW s1) m))
+  (* the collapse emits no effects: an action that itself emits nothing leaves no Consume in the sink,
+     however many heads were braided together *)
+  /\ (forall s a l so' x, acmds a = [] -> adump a = false -> do_action (Some s) a = (so', l, x) ->
+        forall e z, In e l -> e <> SConsume z)
+  (* for up to two heads the facts an action observes after the collapse are the committed fact cache
+     (what queries and sessions read) *)
+  /\ (forall ops, rclash (run r0 ops) = false -> forall s, rstore (run r0 ops) = Some s ->
+     (length (sheads s) <= 2)%nat ->
+     forall s1 m, collapse_heads s (sheads s) = (s1, inl m) -> sclash s1 = false ->
+     exists p, get_linear_perspective (sW s1) m = Some p /\ pfacts p = scache s).
+
+(** the full statement (any number of heads); it needs the braid's merge transparency, which is a
+    property of the concrete braid (C03) and cannot be derived for an arbitrary function *)
+Definition collapse_transparent_full_stmt : Prop :=
+  forall ops, rclash (run r0 ops) = false -> forall s, rstore (run r0 ops) = Some s ->
+  forall s1 m, collapse_heads s (sheads s) = (s1, inl m) -> sclash s1 = false ->
+  exists p, get_linear_perspective (sW s1) m = Some p /\ pfacts p = scache s.
+
+Lemma lazy_merge_proof : lazy_merge_stmt.
+Proof.
+  unfold lazy_merge_stmt. splits.
+  - intros ops Hc s Es s1 m Hcol Hc1.
+    pose proof (RInv_run' ops Hc) as HR. unfold TxnInv.RInv in HR. rewrite Es in HR. destruct HR as [HS _].
+    unfold Txn.hello_head, Txn.collapse_heads in *. rewrite map_length.
+    apply collapse_hello; auto. apply (si_heads_in _ _ _ _ _ _ _ HS).
+  - intros s a l so' x Ea Ed Hd e z Hin. unfold Txn.do_action in Hd.
+    destruct (collapse_heads s (sheads s)) as [s1 rres]. destruct rres as [head|err]; [|inv Hd; destruct Hin].
+    destruct (get_linear_perspective (sW s1) head) as [p|] eqn:Eg; [|inv Hd; destruct Hin].
+    rewrite Ea, Ed in Hd. cbn [Txn.publish] in Hd.
+    assert (Epc : pcmds p = []) by (unfold get_linear_perspective in Eg; destruct (wlookup (sW s1) head); inv Eg; auto).
+    destruct (match afail a with Some k => Nat.eqb k 0 | None => false end).
+    + inv Hd. cbn in Hin. destruct Hin as [<-|[<-|[]]]; discriminate.
+    + unfold write in Hd. rewrite Epc in Hd. inv Hd. cbn in Hin. destruct Hin as [<-|[]]. discriminate.
+  - intros ops Hc s Es Hlen s1 m Hcol Hc1.
+    pose proof (RInv_run' ops Hc) as HR. unfold TxnInv.RInv in HR. rewrite Es in HR. destruct HR as [HS _].
+    pose proof (si_cache _ _ _ _ _ _ _ HS) as Hcache. unfold Txn.collapse_heads in Hcol.
+    destruct (sheads s) as [|a [|b [|c rest]]] eqn:Eh; cbn in Hlen; try lia.
+    + cbn in Hcol. discriminate.
+    + cbn in Hcol. inv Hcol. destruct Hcache as (wh & Hl & Hf). unfold get_linear_perspective. rewrite Hl.
+      eexists. split; [reflexivity|]. cbn. auto.
+    + cbn [length Txn.collapse_go] in Hcol.
+      destruct (collapse_step s a b) as [[s' mm]|e] eqn:Est; [|discriminate]. cbn [app] in Hcol. inv Hcol.
+      assert (Ha : In a (map wid (sW s))) by (apply (si_heads_in _ _ _ _ _ _ _ HS); rewrite Eh; cbn; auto).
+      assert (Hb : In b (map wid (sW s))) by (apply (si_heads_in _ _ _ _ _ _ _ HS); rewrite Eh; cbn; auto).
+      destruct (collapse_step_attr s a b s1 m HS Ha Hb Est Hc1) as (_ & wm & effs & Hl & Hbr & _).
+      assert (Hlt : (b <? a)%N = false).
+      { pose proof (si_sorted _ _ _ _ _ _ _ HS) as Hs. rewrite Eh in Hs. inv Hs. inv H2. apply N.ltb_ge. lia. }
+      rewrite Hlt in Hbr. destruct Hcache as (effs' & Hc'). rewrite Hbr in Hc'. inv Hc'.
+      unfold get_linear_perspective. rewrite Hl. eexists. split; [reflexivity|]. cbn. auto.
+Qed.
+
+Definition hello_head_is_collapse_address_stmt : Prop :=
+  forall ops, rclash (run r0 ops) = false -> forall s, rstore (run r0 ops) = Some s ->
+  forall s1 m, collapse_heads s (sheads s) = (s1, inl m) -> sclash s1 = false ->
+  hello_head s = Some (m, wmc_of (sW s1) m).
+
+Lemma hello_head_is_collapse_address_proof : hello_head_is_collapse_address_stmt.
+Proof. exact (proj1 lazy_merge_proof). Qed.
+
+Definition collapse_no_effects_stmt : Prop :=
+  forall s a l so' x, acmds a = [] -> adump a = false -> do_action (Some s) a = (so', l, x) ->
+  forall e z, In e l -> e <> SConsume z.
+
+Lemma collapse_no_effects_proof : collapse_no_effects_stmt.
+Proof. exact (proj1 (proj2 lazy_merge_proof)). Qed.
+
+Definition collapse_transparent_partial_stmt : Prop :=
+  forall ops, rclash (run r0 ops) = false -> forall s, rstore (run r0 ops) = Some s ->
+  (length (sheads s) <= 2)%nat ->
+  forall s1 m, collapse_heads s (sheads s) = (s1, inl m) -> sclash s1 = false ->
+  exists p, get_linear_perspective (sW s1) m = Some p /\ pfacts p = scache s.
+
+Lemma collapse_transparent_partial_proof : collapse_transparent_partial_stmt.
+Proof. exact (proj2 (proj2 lazy_merge_proof)). Qed.
+
+(** ** the full statement, for every braid that is transparent to the collapse's merges *)
+Definition bfacts (b : bres facts) : option facts := match b with BOk f _ => Some f | _ => None end.
+
+(** Two properties of a braid function (both hold of the braid specification: a merge command has the
+    least key and is popped, without being evaluated, as soon as it is ready; they are C03's
+    [merge_transparent]): the facts do not depend on the order of two heads, and replacing two heads
+    by a stored merge command of them — stored with the braid of the two — does not change the facts. *)
+Definition braid_merge_transparent : Prop :=
+  (forall cs x y, bfacts (braid cs [x; y]) = bfacts (braid cs [y; x]))
+  /\ (forall W W' a b rest l rg wm,
+        WInv W -> WInv W' -> ext W W' ->
+        (forall x, In x (a :: b :: rest) -> In x (map wid W)) ->
+        (l, rg) = (if (b <? a)%N then (b, a) else (a, b)) ->
+        wlookup W' (merge_id l rg) = Some wm -> wc wm = mk_merge l rg ->
+        bfacts (braid (reachset W [l; rg]) [l; rg]) = Some (wfacts wm) ->
+        rest <> [] ->
+        bfacts (braid (reachset W' (rest ++ [merge_id l rg])) (rest ++ [merge_id l rg]))
+        = bfacts (braid (reachset W (a :: b :: rest)) (a :: b :: rest))).
+
+Lemma rfold_ext cl1 cl2 W : (forall x, In x cl1 <-> In x cl2) -> rfold facts cl1 W = rfold facts cl2 W.
+Proof.
+  intros H. induction W as [|w W IH]; cbn; auto. fold (rfold facts cl1 W). fold (rfold facts cl2 W). rewrite IH.
+  destruct (mem (wid w) cl1) eqn:E1, (mem (wid w) cl2) eqn:E2; auto.
+  - apply mem_In in E1. apply H in E1. apply mem_In in E1. congruence.
+  - apply mem_In in E2. apply H in E2. apply mem_In in E2. congruence.
+Qed.
+Lemma reachset_swap W a b : wf_graph (sg W) -> reachset W [a; b] = reachset W [b; a].
+Proof.
+  intros Hw. rewrite !reachset_rfold. apply rfold_ext. intros x. rewrite !closure_spec by auto.
+  unfold TxnGraph.R. split; intros (h & Hh & Hy); exists h; cbn in *; tauto.
+Qed.
+
+Definition queue_facts s (q : list N) (fc : facts) : Prop :=
+  match q with
+  | [x] => exists wx, wlookup (sW s) x = Some wx /\ wfacts wx = fc
+  | _ => bfacts (braid (reachset (sW s) q) q) = Some fc
+  end.
+
+Lemma collapse_go_facts (Hmt : braid_merge_transparent) n : forall s q s1 m fc,
+  SInv s -> (forall x, In x q -> In x (map wid (sW s))) -> queue_facts s q fc ->
+  collapse_go n s q = (s1, inl m) -> sclash s1 = false ->
+  exists wm, wlookup (sW s1) m = Some wm /\ wfacts wm = fc.
+Proof.
+  destruct Hmt as [Hswap Hmerge].
+  induction n as [|n IH]; intros s q s1 m fc HS Hq Hqf Hg Hc; cbn [Txn.collapse_go] in Hg; [discriminate|].
+  destruct q as [|a [|b rest]]; [discriminate| |].
+  - inv Hg. exact Hqf.
+  - destruct (collapse_step s a b) as [[s' mm]|e] eqn:Es; [|discriminate].
+    assert (Hc' : sclash s' = false) by (eapply cmono_false; [eapply collapse_go_cmono; eauto|auto]).
+    assert (Ha : In a (map wid (sW s))) by (apply Hq; cbn; auto).
+    assert (Hb : In b (map wid (sW s))) by (apply Hq; cbn; auto).
+    destruct (collapse_step_ok' s a b s' mm HS Ha Hb Es Hc') as (A & B & C & D).
+    destruct (collapse_step_attr s a b s' mm HS Ha Hb Es Hc') as (Hsy & wm & effs & Hl & Hbr & Hwc).
+    assert (Hq' : forall x, In x (rest ++ [mm]) -> In x (map wid (sW s'))).
+    { intros x Hx. apply in_app_or in Hx. destruct Hx as [Hx|[<-|[]]]; auto.
+      eapply ids_ext; [apply B|]. apply Hq. cbn; auto. }
+    apply (IH s' (rest ++ [mm]) s1 m fc A Hq'); auto.
+    (* the merged id *)
+    assert (Emm : mm = (if (b <? a)%N then merge_id b a else merge_id a b)).
+    { apply wlookup_Some in Hl. destruct Hl as [_ Hid]. unfold wid in Hid. rewrite Hwc in Hid.
+      destruct (b <? a)%N; cbn in Hid; auto. }
+    destruct rest as [|c rest].
+    + (* two heads: the merge carries their braid *)
+      cbn [app queue_facts]. exists wm. split; auto.
+      cbn [queue_facts] in Hqf. destruct (b <? a)%N.
+      * rewrite Hswap in Hqf. rewrite reachset_swap in Hqf by (apply WInv_wf'; apply (si_W _ _ _ _ _ _ _ HS)).
+        rewrite Hbr in Hqf. cbn in Hqf. congruence.
+      * rewrite Hbr in Hqf. cbn in Hqf. congruence.
+    + (* more heads: merge transparency *)
+      assert (Hqf' : bfacts (braid (reachset (sW s) (a :: b :: c :: rest)) (a :: b :: c :: rest)) = Some fc) by exact Hqf.
+      unfold queue_facts. destruct ((c :: rest) ++ [mm]) as [|x [|y l0]] eqn:El0.
+      * destruct rest; discriminate.
+      * destruct rest; discriminate.
+      * rewrite <- El0. rewrite <- Hqf'.
+        destruct B as (Bext & _).
+        destruct (b <? a)%N eqn:Elt.
+        -- subst mm. apply (Hmerge (sW s) (sW s') a b (c :: rest) b a wm); auto.
+           ++ apply (si_W _ _ _ _ _ _ _ HS).
+           ++ apply (si_W _ _ _ _ _ _ _ A).
+           ++ rewrite Elt. reflexivity.
+           ++ rewrite Hbr. reflexivity.
+           ++ discriminate.
+        -- subst mm. apply (Hmerge (sW s) (sW s') a b (c :: rest) a b wm); auto.
+           ++ apply (si_W _ _ _ _ _ _ _ HS).
+           ++ apply (si_W _ _ _ _ _ _ _ A).
+           ++ rewrite Elt. reflexivity.
+           ++ rewrite Hbr. reflexivity.
+           ++ discriminate.
+Qed.
+
+Definition collapse_transparent_stmt : Prop :=
+  braid_merge_transparent -> collapse_transparent_full_stmt.
+
+Lemma collapse_transparent_proof : collapse_transparent_stmt.
+Proof.
+  intros Hmt ops Hc s Es s1 m Hcol Hc1.
+  pose proof (RInv_run' ops Hc) as HR. unfold TxnInv.RInv in HR. rewrite Es in HR. destruct HR as [HS _].
+  unfold Txn.collapse_heads in Hcol.
+  assert (Hqf : queue_facts s (sheads s) (scache s)).
+  { pose proof (si_cache _ _ _ _ _ _ _ HS) as Hcache. unfold queue_facts.
+    destruct (sheads s) as [|a [|b rest]] eqn:Eh.
+    - destruct Hcache as (effs & ->). reflexivity.
+    - destruct Hcache as (wh & Hl & ->). eauto.
+    - destruct Hcache as (effs & ->). reflexivity. }
+  destruct (collapse_go_facts Hmt _ _ _ _ _ _ HS (si_heads_in _ _ _ _ _ _ _ HS) Hqf Hcol Hc1) as (wm & Hl & Hf).
+  unfold get_linear_perspective. rewrite Hl. eexists. split; [reflexivity|]. cbn. auto.
+Qed.
+
+(** * C01 — replicas holding the same commands converge *)
+Definition compatible s1 s2 : Prop :=
+  forall w1 w2, In w1 (sW s1) -> In w2 (sW s2) -> wid w1 = wid w2 -> wc w1 = wc w2.
+Definition same_committed s1 s2 : Prop := forall x, committed s1 x <-> committed s2 x.
+
+Lemma WInv_root_attr W : WInv W -> forall w, In w W -> cpar (wc w) = PNone ->
+  wmc w = 0%N /\ exists effs, eval (wc w) fempty = Accept (wfacts w) effs.
+Proof.
+  induction 1 as [c f effs Hc Hp He | w0 r Hr IH Hn Hok]; intros w Hin Hp0.
+  - destruct Hin as [<-|[]]. cbn. eauto.
+  - destruct Hin as [<-|Hin]; auto. unfold entry_ok in Hok. rewrite Hp0 in Hok. tauto.
+Qed.
+
+Lemma sortedN_ext (l1 l2 : list N) :
+  StronglySorted N.lt l1 -> StronglySorted N.lt l2 -> (forall x, In x l1 <-> In x l2) -> l1 = l2.
+Proof.
+  revert l2; induction l1 as [|a l1 IH]; intros l2 H1 H2 Hx.
+  - destruct l2 as [|b l2]; auto. exfalso. apply (Hx b). cbn; auto.
+  - destruct l2 as [|b l2]; [exfalso; apply (Hx a); cbn; auto|].
+    apply StronglySorted_inv in H1. destruct H1 as [S1 F1].
+    apply StronglySorted_inv in H2. destruct H2 as [S2 F2].
+    rewrite Forall_forall in F1, F2.
+    assert (a = b).
+    { destruct (proj1 (Hx a)) as [E|Ha]; [cbn; auto|auto|].
+      destruct (proj2 (Hx b)) as [E|Hb]; [cbn; auto|auto|].
+      specialize (F1 _ Hb). specialize (F2 _ Ha). lia. }
+    subst b. f_equal. apply IH; auto. intros x. split; intros Hin.
+    + destruct (proj1 (Hx x)) as [E|Hb]; [cbn; auto| |auto]. subst x. specialize (F1 _ Hin). lia.
+    + destruct (proj2 (Hx x)) as [E|Hb]; [cbn; auto| |auto]. subst x. specialize (F2 _ Hin). lia.
+Qed.
+
+(** Two well-formed stores that agree on the identity of commands agree on everything below a
+    command whose ancestors they both hold: ancestry, and the stored entry (max cut, facts). *)
+Lemma agree_below W1 W2 :
+  WInv W1 -> WInv W2 ->
+  (forall w1 w2, In w1 W1 -> In w2 W2 -> wid w1 = wid w2 -> wc w1 = wc w2) ->
+  forall suf pre, W1 = pre ++ suf ->
+  forall x, In x (map wid suf) -> (forall y, anc (sg W1) y x -> In y (map wid W2)) ->
+  (forall y, anc (sg W1) y x <-> anc (sg W2) y x)
+  /\ (forall y, anc (sg W1) y x -> wlookup W1 y = wlookup W2 y).
+Proof.
+  intros HW1 HW2 Hcomp. pose proof (WInv_wf' _ HW1) as Hwf1. pose proof (WInv_wf' _ HW2) as Hwf2.
+  pose proof (WInv_NoDup' _ HW1) as Hnd1. pose proof (WInv_NoDup' _ HW2) as Hnd2.
+  induction suf as [|w suf IH]; intros pre E x Hx Hcl; [destruct Hx|].
+  destruct Hx as [Ex|Hx].
+  2:{ apply (IH (pre ++ [w])); auto. rewrite <- app_assoc. auto. }
+  subst x.
+  assert (Hw1 : In w W1) by (rewrite E; apply in_or_app; cbn; auto).
+  assert (Hl1 : wlookup W1 (wid w) = Some w) by (apply wlookup_unique; auto).
+  assert (Hx2 : In (wid w) (map wid W2)).
+  { apply Hcl. apply anc_refl. rewrite ids_sg. apply in_map; auto. }
+  destruct (wlookup_In_ids _ _ _ Hx2) as (w2 & Hl2).
+  pose proof (wlookup_Some _ _ _ _ Hl2) as [Hw2 Eid2].
+  assert (Ec : wc w = wc w2) by (apply Hcomp; auto).
+  assert (Hlk1 : lookup (sg W1) (wid w) = Some (wc w)) by (rewrite wlookup_lookup, Hl1; auto).
+  assert (Hlk2 : lookup (sg W2) (wid w) = Some (wc w)) by (rewrite wlookup_lookup, Hl2; cbn; congruence).
+  (* the parents are older in W1, and closed *)
+  assert (Hpar : forall p, In p (parents (wc w)) -> In p (map wid suf) /\ (forall y, anc (sg W1) y p -> In y (map wid W2))).
+  { intros p Hp. split.
+    - assert (HWs : WInv (w :: suf)).
+      { rewrite E in HW1. eapply WInv_app; eauto. discriminate. }
+      inv HWs.
+      + exfalso. unfold parents in Hp. cbn in Hp. match goal with H : cpar _ = PNone |- _ => rewrite H in Hp end. destruct Hp.
+      + eapply entry_ok_parents; eauto.
+    - intros y Hy. apply Hcl. apply (anc_unfold _ _ _ y Hlk1). right. eauto. }
+  assert (IHp : forall p, In p (parents (wc w)) ->
+            (forall y, anc (sg W1) y p <-> anc (sg W2) y p) /\ (forall y, anc (sg W1) y p -> wlookup W1 y = wlookup W2 y)).
+  { intros p Hp. destruct (Hpar p Hp) as [A B]. apply (IH (pre ++ [w])); auto. rewrite <- app_assoc. auto. }
+  assert (Hanc : forall y, anc (sg W1) y (wid w) <-> anc (sg W2) y (wid w)).
+  { intros y. rewrite (anc_unfold _ _ _ y Hlk1), (anc_unfold _ _ _ y Hlk2). split.
+    - intros [->|(q & Hq & Hy)]; auto. right. exists q. split; auto. apply (IHp q Hq). auto.
+    - intros [->|(q & Hq & Hy)]; auto. right. exists q. split; auto. apply (IHp q Hq). auto. }
+  split; auto.
+  intros y Hy. apply (anc_unfold _ _ _ y Hlk1) in Hy. destruct Hy as [->|(q & Hq & Hy)].
+  2:{ apply (IHp q Hq). auto. }
+  (* the entry of [w] itself *)
+  rewrite Hl1, Hl2. f_equal.
+  assert (Hattr : wfacts w = wfacts w2 /\ wmc w = wmc w2).
+  { destruct (WInv_entry' _ HW1 w Hw1) as [E1|E1], (WInv_entry' _ HW2 w2 Hw2) as [E2|E2].
+    - destruct (WInv_root_attr _ HW1 w Hw1 E1) as (M1 & effs1 & V1).
+      destruct (WInv_root_attr _ HW2 w2 Hw2 E2) as (M2 & effs2 & V2).
+      rewrite Ec in V1. rewrite V1 in V2. inv V2. split; congruence.
+    - exfalso. unfold entry_ok in E2. rewrite <- Ec, E1 in E2. auto.
+    - exfalso. unfold entry_ok in E1. rewrite Ec, E2 in E1. auto.
+    - unfold entry_ok in E1, E2. rewrite <- Ec in E2. unfold parents in IHp.
+      destruct (cpar (wc w)) as [|a|a b] eqn:Ecp; [tauto| |].
+      + destruct E1 as (wa & La & Ma & effs & Va). destruct E2 as (wa2 & La2 & Ma2 & effs2 & Va2).
+        assert (wlookup W1 a = wlookup W2 a).
+        { apply (IHp a); [cbn; auto|]. apply anc_refl. rewrite ids_sg.
+          apply wlookup_Some in La. destruct La as [Hi <-]. apply in_map; auto. }
+        rewrite La, La2 in H. inv H. rewrite Va in Va2. inv Va2. split; congruence.
+      + destruct E1 as (Ia & Ib & Ma & effs & Va). destruct E2 as (Ia2 & Ib2 & Ma2 & effs2 & Va2).
+        assert (Hla : forall q, In q [a; b] -> forall y, anc (sg W1) y q -> wlookup W1 y = wlookup W2 y)
+          by (intros q Hq; apply (IHp q Hq)).
+        assert (Haa : forall q, In q [a; b] -> forall y, anc (sg W1) y q <-> anc (sg W2) y q)
+          by (intros q Hq; apply (IHp q Hq)).
+        assert (Era : reachset W1 [a; b] = reachset W2 [a; b]).
+        { apply sorted_ext; try (rewrite reachset_rfold; apply rfold_sorted).
+          intros z. rewrite !reachset_In by auto. unfold TxnGraph.R. split.
+          - intros [Hz (q & Hq & Hy)]. pose proof (Hla q Hq _ Hy) as El.
+            rewrite (wlookup_unique _ _ _ Hnd1 Hz) in El. symmetry in El. apply wlookup_Some in El.
+            split; [tauto|]. exists q. split; auto. apply (Haa q Hq). auto.
+          - intros [Hz (q & Hq & Hy)]. apply (Haa q Hq) in Hy. pose proof (Hla q Hq _ Hy) as El.
+            rewrite (wlookup_unique _ _ _ Hnd2 Hz) in El. apply wlookup_Some in El.
+            split; [tauto|]. exists q. split; auto. }
+        assert (Hma : wmc_of W1 a = wmc_of W2 a /\ wmc_of W1 b = wmc_of W2 b).
+        { unfold wmc_of. split.
+          - rewrite (Hla a (or_introl eq_refl) a); auto. apply anc_refl. rewrite ids_sg; auto.
+          - rewrite (Hla b (or_intror (or_introl eq_refl)) b); auto. apply anc_refl. rewrite ids_sg; auto. }
+        destruct Hma as [Hm1 Hm2]. rewrite Era in Va. rewrite Va in Va2. inv Va2. split; [auto|congruence]. }
+  destruct Hattr as [Hf Hm]. destruct w, w2. cbn in *. congruence.
+Qed.
+
+Lemma agree_committed s1 s2 :
+  SInv s1 -> SInv s2 -> compatible s1 s2 -> same_committed s1 s2 ->
+  forall x, committed s1 x ->
+  (forall y, anc (sg (sW s1)) y x <-> anc (sg (sW s2)) y x)
+  /\ (forall y, anc (sg (sW s1)) y x -> wlookup (sW s1) y = wlookup (sW s2) y).
+Proof.
+  intros H1 H2 Hc Hs x Hx.
+  pose proof (si_W _ _ _ _ _ _ _ H1) as HW1. pose proof (si_W _ _ _ _ _ _ _ H2) as HW2.
+  apply (agree_below (sW s1) (sW s2) HW1 HW2 Hc (sW s1) [] eq_refl).
+  - eapply R_in; eauto. apply WInv_wf'; auto.
+  - intros y Hy. assert (committed s2 y) by (apply Hs; eapply R_trans; eauto).
+    eapply R_in; eauto. apply WInv_wf'; auto.
+Qed.
+
+Definition convergence_stmt : Prop :=
+  forall ops1 ops2,
+  rclash (run r0 ops1) = false -> rclash (run r0 ops2) = false ->
+  forall s1 s2, rstore (run r0 ops1) = Some s1 -> rstore (run r0 ops2) = Some s2 ->
+  compatible s1 s2 ->            (* the same id names the same command on both replicas *)
+  same_committed s1 s2 ->        (* they have committed the same set of commands *)
+  sheads s1 = sheads s2 /\ scache s1 = scache s2 /\ hello_head s1 = hello_head s2
+  /\ (forall x, committed s1 x -> wlookup (sW s1) x = wlookup (sW s2) x).
+
+Lemma convergence_SInv s1 s2 :
+  SInv s1 -> SInv s2 -> compatible s1 s2 -> same_committed s1 s2 ->
+  sheads s1 = sheads s2 /\ scache s1 = scache s2 /\ hello_head s1 = hello_head s2
+  /\ (forall x, committed s1 x -> wlookup (sW s1) x = wlookup (sW s2) x).
+Proof.
+  intros H1 H2 Hc Hs.
+  assert (Hc' : compatible s2 s1) by (intros a b Ha Hb E; symmetry; apply Hc; auto).
+  assert (Hs' : same_committed s2 s1) by (intros x; symmetry; apply Hs).
+  pose proof (agree_committed s1 s2 H1 H2 Hc Hs) as A12.
+  pose proof (agree_committed s2 s1 H2 H1 Hc' Hs') as A21.
+  pose proof (si_W _ _ _ _ _ _ _ H1) as HW1. pose proof (si_W _ _ _ _ _ _ _ H2) as HW2.
+  pose proof (WInv_wf' _ HW1) as Hwf1. pose proof (WInv_wf' _ HW2) as Hwf2.
+  assert (Hself : forall s, SInv s -> forall h, In h (sheads s) -> committed s h).
+  { intros s HS h Hh. apply R_self; auto. apply (si_heads_in _ _ _ _ _ _ _ HS); auto. }
+  assert (Hheads_sub : forall sa sb, SInv sa -> SInv sb -> same_committed sa sb ->
+            (forall x, committed sa x -> forall y, anc (sg (sW sa)) y x <-> anc (sg (sW sb)) y x) ->
+            (forall x, committed sb x -> forall y, anc (sg (sW sb)) y x <-> anc (sg (sW sa)) y x) ->
+            forall x, In x (sheads sa) -> In x (sheads sb)).
+  { intros sa sb Ha Hb Hsab Aab Aba x Hx.
+    pose proof (WInv_wf' _ (si_W _ _ _ _ _ _ _ Ha)) as Hwa.
+    assert (Hcx : committed sb x) by (apply Hsab; apply Hself; auto).
+    destruct Hcx as (h2 & Hh2 & Hxh2).
+    assert (Hch2 : committed sa h2) by (apply Hsab; apply Hself; auto).
+    destruct Hch2 as (h1 & Hh1 & Hh2h1).
+    assert (Hxh2a : anc (sg (sW sa)) x h2) by (apply (Aba h2); auto; apply Hself; auto).
+    assert (x = h1) by (apply (si_anti _ _ _ _ _ _ _ Ha); auto; eapply anc_trans; eauto). subst h1.
+    assert (x = h2) by (eapply anc_antisym; eauto). subst h2. auto. }
+  assert (Eh : sheads s1 = sheads s2).
+  { apply sortedN_ext; [apply (si_sorted _ _ _ _ _ _ _ H1) | apply (si_sorted _ _ _ _ _ _ _ H2) | ].
+    intros x. split.
+    - apply (Hheads_sub s1 s2); auto; intros; [apply A12|apply A21]; auto.
+    - apply (Hheads_sub s2 s1); auto; intros; [apply A21|apply A12]; auto. }
+  assert (Hlk : forall x, committed s1 x -> wlookup (sW s1) x = wlookup (sW s2) x).
+  { intros x Hx. apply (A12 x Hx). apply anc_refl. rewrite ids_sg. eapply R_in; eauto. }
+  splits; auto.
+  - (* fact cache *)
+    pose proof (si_cache _ _ _ _ _ _ _ H1) as C1. pose proof (si_cache _ _ _ _ _ _ _ H2) as C2.
+    rewrite <- Eh in C2.
+    assert (Ers : reachset (sW s1) (sheads s1) = reachset (sW s2) (sheads s1)).
+    { apply sorted_ext; try (rewrite reachset_rfold; apply rfold_sorted).
+      pose proof (WInv_NoDup' _ HW1) as Hnd1. pose proof (WInv_NoDup' _ HW2) as Hnd2.
+      intros z. rewrite !reachset_In by auto. unfold TxnGraph.R. split.
+      - intros [Hz (q & Hq & Hy)]. assert (Hcq : committed s1 q) by (apply Hself; auto).
+        pose proof (proj2 (A12 q Hcq) _ Hy) as El. rewrite (wlookup_unique _ _ _ Hnd1 Hz) in El.
+        symmetry in El. apply wlookup_Some in El. split; [tauto|]. exists q. split; auto. apply (A12 q Hcq). auto.
+      - intros [Hz (q & Hq & Hy)]. assert (Hcq : committed s2 q) by (apply Hself; auto; rewrite <- Eh; auto).
+        pose proof (proj2 (A21 q Hcq) _ Hy) as El. rewrite (wlookup_unique _ _ _ Hnd2 Hz) in El.
+        symmetry in El. apply wlookup_Some in El. split; [tauto|]. exists q. split; auto. apply (A21 q Hcq). auto. }
+    destruct (sheads s1) as [|h [|h2 hs]] eqn:Ehs.
+    + exfalso. apply (si_heads_ne _ _ _ _ _ _ _ H1). auto.
+    + destruct C1 as (w1 & L1 & F1). destruct C2 as (w2 & L2 & F2).
+      assert (wlookup (sW s1) h = wlookup (sW s2) h) by (apply Hlk; apply Hself; auto; rewrite Ehs; cbn; auto).
+      congruence.
+    + destruct C1 as (e1 & B1). destruct C2 as (e2 & B2). rewrite Ers in B1. rewrite B1 in B2. inv B2. auto.
+  - (* hello head *)
+    assert (Em : map (fun h => (h, wmc_of (sW s1) h)) (sheads s1) = map (fun h => (h, wmc_of (sW s2) h)) (sheads s1)).
+    { apply map_ext_in. intros h Hh. f_equal. unfold wmc_of. rewrite (Hlk h); auto. }
+    unfold Txn.hello_head. rewrite <- Eh, Em. reflexivity.
+Qed.
+
+Lemma convergence_proof : convergence_stmt.
+Proof.
+  intros ops1 ops2 C1 C2 s1 s2 E1 E2 Hc Hs.
+  pose proof (RInv_run' ops1 C1) as R1. pose proof (RInv_run' ops2 C2) as R2.
+  unfold TxnInv.RInv in R1, R2. rewrite E1 in R1. rewrite E2 in R2.
+  destruct R1 as [H1 _]. destruct R2 as [H2 _]. apply convergence_SInv; auto.
 Qed.
 
 End Props.
